@@ -404,6 +404,47 @@ theorem mont_tail_hi5 (s : State) (pr pt pp inv : Word)
   a64_sym [← ht208, ← ht225, ← ht226, ← ht227, ← ht228, ← ht229, ← ht230, hb209]
 
 set_option maxHeartbeats 1600000 in
+set_option exponentiation.threshold 800 in
+theorem mont_end_hi5 (s : State) (pr pt pp inv : Word) {p0 p1 p2 p3 p4 p5 l176 l200 : Word} {t73 t106 t139 t172 t175 t184 t189 t194 t198 t199 t204 t205 t207 t225 t226 t227 t228 t229 t230 : ArithRes} {T U : Nat}
+    (hr : Buf s pr 6 true) (ht : Buf s pt 12 false) (hp : Buf s pp 6 false)
+    (hstk : Stack s 4) (hrs : OffStack s 4 pr 6) (hts : OffStack s 4 pt 12) (hps : OffStack s 4 pp 6)
+    (ht208 : t208 = addWithCarry t207.val (~~~p5) true) (ht225 : t225 = addWithCarry t184.val (~~~p0) true)
+    (ht226 : t226 = addWithCarry t189.val (~~~p1) t225.c) (ht227 : t227 = addWithCarry t194.val (~~~p2) t226.c)
+    (ht228 : t228 = addWithCarry t199.val (~~~p3) t227.c) (ht229 : t229 = addWithCarry t204.val (~~~p4) t228.c)
+    (ht230 : t230 = addWithCarry t207.val (~~~p5) t229.c) (hb209 : (t208.c && !t208.z) = true)
+    (hR2 : val (2 ^ 64) [t184.val.toNat, t189.val.toNat, t194.val.toNat, t199.val.toNat, t204.val.toNat, t207.val.toNat] < 2 * val (2 ^ 64) [p0.toNat, p1.toNat, p2.toNat, p3.toNat, p4.toNat, p5.toNat])
+    (hRe : 2 ^ 384 * val (2 ^ 64) [t184.val.toNat, t189.val.toNat, t194.val.toNat, t199.val.toNat, t204.val.toNat, t207.val.toNat] = T + U * val (2 ^ 64) [p0.toNat, p1.toNat, p2.toNat, p3.toNat, p4.toNat, p5.toNat]) :
+    ∃ s', run embedded_pairing_core_arch_aarch64_fpbase_384_montgomery_reduce ({ x0 := pr, x1 := l176, x2 := t175.val, x3 := inv, x4 := t73.val, x5 := t106.val, x6 := t139.val, x7 := t172.val, x8 := s.x8, x9 := t205.val, x10 := t184.val, x11 := t189.val, x12 := t194.val, x13 := t199.val, x14 := t204.val, x15 := t207.val, x16 := s.x16, x17 := s.x17, x18 := s.x18, x19 := p0, x20 := p1, x21 := p2, x22 := p3, x23 := p4, x24 := p5, x25 := t198.val, x26 := l200, x27 := s.x27, x28 := s.x28, x29 := s.x29, x30 := s.x30, sp := s.sp - 16#64 - 16#64 - 16#64 - 16#64, nf := some t207.n, zf := some t207.z, cf := some t207.c, vf := some t207.v, mem := setMem (setMem (setMem (setMem (setMem (setMem (setMem (setMem (s.mem) (s.sp.toNat - 16) s.x19) (s.sp.toNat - 16 + 8) s.x20) (s.sp.toNat - 16 - 16) s.x21) (s.sp.toNat - 16 - 16 + 8) s.x22) (s.sp.toNat - 16 - 16 - 16) s.x23) (s.sp.toNat - 16 - 16 - 16 + 8) s.x24) (s.sp.toNat - 16 - 16 - 16 - 16) s.x25) (s.sp.toNat - 16 - 16 - 16 - 16 + 8) s.x26, readable := s.readable, writable := s.writable, pc := 208, status := .running } : State) 16 = s' ∧ Returned s s' ∧
+      val (2 ^ 64) [(s'.mem pr.toNat).toNat, (s'.mem (pr.toNat + 8)).toNat, (s'.mem (pr.toNat + 16)).toNat, (s'.mem (pr.toNat + 24)).toNat, (s'.mem (pr.toNat + 32)).toNat, (s'.mem (pr.toNat + 40)).toNat] < val (2 ^ 64) [p0.toNat, p1.toNat, p2.toNat, p3.toNat, p4.toNat, p5.toNat] ∧
+      (val (2 ^ 64) [(s'.mem pr.toNat).toNat, (s'.mem (pr.toNat + 8)).toNat, (s'.mem (pr.toNat + 16)).toNat, (s'.mem (pr.toNat + 24)).toNat, (s'.mem (pr.toNat + 32)).toNat, (s'.mem (pr.toNat + 40)).toNat] * 2 ^ 384) % val (2 ^ 64) [p0.toNat, p1.toNat, p2.toNat, p3.toNat, p4.toNat, p5.toNat] = T % val (2 ^ 64) [p0.toNat, p1.toNat, p2.toNat, p3.toNat, p4.toNat, p5.toNat] ∧
+      (∀ k, ¬(pr.toNat ≤ k ∧ k < pr.toNat + 48) → ¬(s.sp.toNat - 64 ≤ k ∧ k < s.sp.toNat) → s'.mem k = s.mem k) := by
+  have ir0 := (t184.val).isLt; have ip0 := (p0).isLt
+  have ir1 := (t189.val).isLt; have ip1 := (p1).isLt
+  have ir2 := (t194.val).isLt; have ip2 := (p2).isLt
+  have ir3 := (t199.val).isLt; have ip3 := (p3).isLt
+  have ir4 := (t204.val).isLt; have ip4 := (p4).isLt
+  have ir5 := (t207.val).isLt; have ip5 := (p5).isLt
+  have c5 := cmp_hi ht208 hb209
+  have hle : val (2 ^ 64) [p0.toNat, p1.toNat, p2.toNat, p3.toNat, p4.toNat, p5.toNat] ≤ val (2 ^ 64) [t184.val.toNat, t189.val.toNat, t194.val.toNat, t199.val.toNat, t204.val.toNat, t207.val.toNat] := by
+    simp only [val_cons, val_nil]
+    clear * - c5 ir0 ip0 ir1 ip1 ir2 ip2 ir3 ip3 ir4 ip4 ir5 ip5
+    omega
+  have hs := sub6_val ht225 ht226 ht227 ht228 ht229 ht230
+  simp only [Bool.not_true, Bool.toNat_false, Nat.add_zero] at hs
+  have hres := X86.mont_result hR2 hRe (Or.inr (sub_no_borrow hs hle (X86.val6_lt t225.val t226.val t227.val t228.val t229.val t230.val)))
+  have hq := mont_tail_hi5 s pr pt pp inv hr ht hp hstk hrs hts hps (t73 := t73) (t106 := t106) (t139 := t139) (t172 := t172) (t175 := t175) (t184 := t184) (t189 := t189) (t194 := t194) (t198 := t198) (t199 := t199) (t204 := t204) (t205 := t205) (t207 := t207) (t225 := t225) (t226 := t226) (t227 := t227) (t228 := t228) (t229 := t229) (t230 := t230) (p0 := p0) (p1 := p1) (p2 := p2) (p3 := p3) (p4 := p4) (p5 := p5) (l176 := l176) (l200 := l200) ht208 ht225 ht226 ht227 ht228 ht229 ht230 hb209
+  obtain ⟨rr0, rr1, rr2, rr3, rr4, rr5⟩ := hr.r6
+  obtain ⟨⟨alrr0, alrr1, alrr2, alrr3, alrr4, alrr5⟩, frr1, frr2, frr3, frr4, frr5⟩ := hr.addr6
+  have room4 := (hstk.f4 (by omega)).1
+  replace hrs := Hide.mk (And.intro room4 hrs)
+  simp only [OffStack] at hrs
+  refine ⟨_, hq, ⟨rfl, rfl, rfl, rfl, rfl, rfl, rfl, rfl, rfl, rfl, rfl, rfl, rfl, rfl, rfl⟩, ?_, ?_, ?_⟩
+  · simp only; a64_mem; exact hres.1
+  · simp only; a64_mem; exact hres.2
+  · intro k hk1 hk2
+    simp (disch := (clear * - hk1 hk2 room4; omega)) only [setMem_ne]
+
+set_option maxHeartbeats 1600000 in
 theorem mont_tail_lo5 (s : State) (pr pt pp inv : Word)
     (hr : Buf s pr 6 true) (ht : Buf s pt 12 false) (hp : Buf s pp 6 false)
     (hstk : Stack s 4) (hrs : OffStack s 4 pr 6) (hts : OffStack s 4 pt 12) (hps : OffStack s 4 pp 6) {p0 p1 p2 p3 p4 p5 l176 l200 : Word} {t73 t106 t139 t172 t175 t184 t189 t194 t198 t199 t204 t205 t207 t208 : ArithRes}
@@ -427,6 +468,42 @@ theorem mont_tail_lo5 (s : State) (pr pt pp inv : Word)
   simp only [OffStack] at hrs hts hps
   clear ht hp hr hstk
   a64_sym [← ht208, hb209, hb210]
+
+set_option maxHeartbeats 1600000 in
+set_option exponentiation.threshold 800 in
+theorem mont_end_lo5 (s : State) (pr pt pp inv : Word) {p0 p1 p2 p3 p4 p5 l176 l200 : Word} {t73 t106 t139 t172 t175 t184 t189 t194 t198 t199 t204 t205 t207 t208 : ArithRes} {T U : Nat}
+    (hr : Buf s pr 6 true) (ht : Buf s pt 12 false) (hp : Buf s pp 6 false)
+    (hstk : Stack s 4) (hrs : OffStack s 4 pr 6) (hts : OffStack s 4 pt 12) (hps : OffStack s 4 pp 6)
+    (ht208 : t208 = addWithCarry t207.val (~~~p5) true) (hb209 : (t208.c && !t208.z) = false) (hb210 : (!t208.c) = true)
+    (hR2 : val (2 ^ 64) [t184.val.toNat, t189.val.toNat, t194.val.toNat, t199.val.toNat, t204.val.toNat, t207.val.toNat] < 2 * val (2 ^ 64) [p0.toNat, p1.toNat, p2.toNat, p3.toNat, p4.toNat, p5.toNat])
+    (hRe : 2 ^ 384 * val (2 ^ 64) [t184.val.toNat, t189.val.toNat, t194.val.toNat, t199.val.toNat, t204.val.toNat, t207.val.toNat] = T + U * val (2 ^ 64) [p0.toNat, p1.toNat, p2.toNat, p3.toNat, p4.toNat, p5.toNat]) :
+    ∃ s', run embedded_pairing_core_arch_aarch64_fpbase_384_montgomery_reduce ({ x0 := pr, x1 := l176, x2 := t175.val, x3 := inv, x4 := t73.val, x5 := t106.val, x6 := t139.val, x7 := t172.val, x8 := s.x8, x9 := t205.val, x10 := t184.val, x11 := t189.val, x12 := t194.val, x13 := t199.val, x14 := t204.val, x15 := t207.val, x16 := s.x16, x17 := s.x17, x18 := s.x18, x19 := p0, x20 := p1, x21 := p2, x22 := p3, x23 := p4, x24 := p5, x25 := t198.val, x26 := l200, x27 := s.x27, x28 := s.x28, x29 := s.x29, x30 := s.x30, sp := s.sp - 16#64 - 16#64 - 16#64 - 16#64, nf := some t207.n, zf := some t207.z, cf := some t207.c, vf := some t207.v, mem := setMem (setMem (setMem (setMem (setMem (setMem (setMem (setMem (s.mem) (s.sp.toNat - 16) s.x19) (s.sp.toNat - 16 + 8) s.x20) (s.sp.toNat - 16 - 16) s.x21) (s.sp.toNat - 16 - 16 + 8) s.x22) (s.sp.toNat - 16 - 16 - 16) s.x23) (s.sp.toNat - 16 - 16 - 16 + 8) s.x24) (s.sp.toNat - 16 - 16 - 16 - 16) s.x25) (s.sp.toNat - 16 - 16 - 16 - 16 + 8) s.x26, readable := s.readable, writable := s.writable, pc := 208, status := .running } : State) 11 = s' ∧ Returned s s' ∧
+      val (2 ^ 64) [(s'.mem pr.toNat).toNat, (s'.mem (pr.toNat + 8)).toNat, (s'.mem (pr.toNat + 16)).toNat, (s'.mem (pr.toNat + 24)).toNat, (s'.mem (pr.toNat + 32)).toNat, (s'.mem (pr.toNat + 40)).toNat] < val (2 ^ 64) [p0.toNat, p1.toNat, p2.toNat, p3.toNat, p4.toNat, p5.toNat] ∧
+      (val (2 ^ 64) [(s'.mem pr.toNat).toNat, (s'.mem (pr.toNat + 8)).toNat, (s'.mem (pr.toNat + 16)).toNat, (s'.mem (pr.toNat + 24)).toNat, (s'.mem (pr.toNat + 32)).toNat, (s'.mem (pr.toNat + 40)).toNat] * 2 ^ 384) % val (2 ^ 64) [p0.toNat, p1.toNat, p2.toNat, p3.toNat, p4.toNat, p5.toNat] = T % val (2 ^ 64) [p0.toNat, p1.toNat, p2.toNat, p3.toNat, p4.toNat, p5.toNat] ∧
+      (∀ k, ¬(pr.toNat ≤ k ∧ k < pr.toNat + 48) → ¬(s.sp.toNat - 64 ≤ k ∧ k < s.sp.toNat) → s'.mem k = s.mem k) := by
+  have ir0 := (t184.val).isLt; have ip0 := (p0).isLt
+  have ir1 := (t189.val).isLt; have ip1 := (p1).isLt
+  have ir2 := (t194.val).isLt; have ip2 := (p2).isLt
+  have ir3 := (t199.val).isLt; have ip3 := (p3).isLt
+  have ir4 := (t204.val).isLt; have ip4 := (p4).isLt
+  have ir5 := (t207.val).isLt; have ip5 := (p5).isLt
+  have c5 := cmp_lo ht208 hb210
+  have hlt : val (2 ^ 64) [t184.val.toNat, t189.val.toNat, t194.val.toNat, t199.val.toNat, t204.val.toNat, t207.val.toNat] < val (2 ^ 64) [p0.toNat, p1.toNat, p2.toNat, p3.toNat, p4.toNat, p5.toNat] := by
+    simp only [val_cons, val_nil]
+    clear * - c5 ir0 ip0 ir1 ip1 ir2 ip2 ir3 ip3 ir4 ip4 ir5 ip5
+    omega
+  have hres := X86.mont_result hR2 hRe (Or.inl ⟨rfl, hlt⟩)
+  have hq := mont_tail_lo5 s pr pt pp inv hr ht hp hstk hrs hts hps (t73 := t73) (t106 := t106) (t139 := t139) (t172 := t172) (t175 := t175) (t184 := t184) (t189 := t189) (t194 := t194) (t198 := t198) (t199 := t199) (t204 := t204) (t205 := t205) (t207 := t207) (t208 := t208) (p0 := p0) (p1 := p1) (p2 := p2) (p3 := p3) (p4 := p4) (p5 := p5) (l176 := l176) (l200 := l200) ht208 hb209 hb210
+  obtain ⟨rr0, rr1, rr2, rr3, rr4, rr5⟩ := hr.r6
+  obtain ⟨⟨alrr0, alrr1, alrr2, alrr3, alrr4, alrr5⟩, frr1, frr2, frr3, frr4, frr5⟩ := hr.addr6
+  have room4 := (hstk.f4 (by omega)).1
+  replace hrs := Hide.mk (And.intro room4 hrs)
+  simp only [OffStack] at hrs
+  refine ⟨_, hq, ⟨rfl, rfl, rfl, rfl, rfl, rfl, rfl, rfl, rfl, rfl, rfl, rfl, rfl, rfl, rfl⟩, ?_, ?_, ?_⟩
+  · simp only; a64_mem; exact hres.1
+  · simp only; a64_mem; exact hres.2
+  · intro k hk1 hk2
+    simp (disch := (clear * - hk1 hk2 room4; omega)) only [setMem_ne]
 
 set_option maxHeartbeats 1600000 in
 theorem mont_tail_hi4 (s : State) (pr pt pp inv : Word)
@@ -458,6 +535,49 @@ theorem mont_tail_hi4 (s : State) (pr pt pp inv : Word)
   a64_sym [← ht208, ← ht211, ← ht225, ← ht226, ← ht227, ← ht228, ← ht229, ← ht230, hb209, hb210, hb212]
 
 set_option maxHeartbeats 1600000 in
+set_option exponentiation.threshold 800 in
+theorem mont_end_hi4 (s : State) (pr pt pp inv : Word) {p0 p1 p2 p3 p4 p5 l176 l200 : Word} {t73 t106 t139 t172 t175 t184 t189 t194 t198 t199 t204 t205 t207 t225 t226 t227 t228 t229 t230 : ArithRes} {T U : Nat}
+    (hr : Buf s pr 6 true) (ht : Buf s pt 12 false) (hp : Buf s pp 6 false)
+    (hstk : Stack s 4) (hrs : OffStack s 4 pr 6) (hts : OffStack s 4 pt 12) (hps : OffStack s 4 pp 6)
+    (ht208 : t208 = addWithCarry t207.val (~~~p5) true) (ht211 : t211 = addWithCarry t204.val (~~~p4) true)
+    (ht225 : t225 = addWithCarry t184.val (~~~p0) true) (ht226 : t226 = addWithCarry t189.val (~~~p1) t225.c)
+    (ht227 : t227 = addWithCarry t194.val (~~~p2) t226.c) (ht228 : t228 = addWithCarry t199.val (~~~p3) t227.c)
+    (ht229 : t229 = addWithCarry t204.val (~~~p4) t228.c) (ht230 : t230 = addWithCarry t207.val (~~~p5) t229.c)
+    (hb209 : (t208.c && !t208.z) = false) (hb210 : (!t208.c) = false) (hb212 : (t211.c && !t211.z) = true)
+    (hR2 : val (2 ^ 64) [t184.val.toNat, t189.val.toNat, t194.val.toNat, t199.val.toNat, t204.val.toNat, t207.val.toNat] < 2 * val (2 ^ 64) [p0.toNat, p1.toNat, p2.toNat, p3.toNat, p4.toNat, p5.toNat])
+    (hRe : 2 ^ 384 * val (2 ^ 64) [t184.val.toNat, t189.val.toNat, t194.val.toNat, t199.val.toNat, t204.val.toNat, t207.val.toNat] = T + U * val (2 ^ 64) [p0.toNat, p1.toNat, p2.toNat, p3.toNat, p4.toNat, p5.toNat]) :
+    ∃ s', run embedded_pairing_core_arch_aarch64_fpbase_384_montgomery_reduce ({ x0 := pr, x1 := l176, x2 := t175.val, x3 := inv, x4 := t73.val, x5 := t106.val, x6 := t139.val, x7 := t172.val, x8 := s.x8, x9 := t205.val, x10 := t184.val, x11 := t189.val, x12 := t194.val, x13 := t199.val, x14 := t204.val, x15 := t207.val, x16 := s.x16, x17 := s.x17, x18 := s.x18, x19 := p0, x20 := p1, x21 := p2, x22 := p3, x23 := p4, x24 := p5, x25 := t198.val, x26 := l200, x27 := s.x27, x28 := s.x28, x29 := s.x29, x30 := s.x30, sp := s.sp - 16#64 - 16#64 - 16#64 - 16#64, nf := some t207.n, zf := some t207.z, cf := some t207.c, vf := some t207.v, mem := setMem (setMem (setMem (setMem (setMem (setMem (setMem (setMem (s.mem) (s.sp.toNat - 16) s.x19) (s.sp.toNat - 16 + 8) s.x20) (s.sp.toNat - 16 - 16) s.x21) (s.sp.toNat - 16 - 16 + 8) s.x22) (s.sp.toNat - 16 - 16 - 16) s.x23) (s.sp.toNat - 16 - 16 - 16 + 8) s.x24) (s.sp.toNat - 16 - 16 - 16 - 16) s.x25) (s.sp.toNat - 16 - 16 - 16 - 16 + 8) s.x26, readable := s.readable, writable := s.writable, pc := 208, status := .running } : State) 19 = s' ∧ Returned s s' ∧
+      val (2 ^ 64) [(s'.mem pr.toNat).toNat, (s'.mem (pr.toNat + 8)).toNat, (s'.mem (pr.toNat + 16)).toNat, (s'.mem (pr.toNat + 24)).toNat, (s'.mem (pr.toNat + 32)).toNat, (s'.mem (pr.toNat + 40)).toNat] < val (2 ^ 64) [p0.toNat, p1.toNat, p2.toNat, p3.toNat, p4.toNat, p5.toNat] ∧
+      (val (2 ^ 64) [(s'.mem pr.toNat).toNat, (s'.mem (pr.toNat + 8)).toNat, (s'.mem (pr.toNat + 16)).toNat, (s'.mem (pr.toNat + 24)).toNat, (s'.mem (pr.toNat + 32)).toNat, (s'.mem (pr.toNat + 40)).toNat] * 2 ^ 384) % val (2 ^ 64) [p0.toNat, p1.toNat, p2.toNat, p3.toNat, p4.toNat, p5.toNat] = T % val (2 ^ 64) [p0.toNat, p1.toNat, p2.toNat, p3.toNat, p4.toNat, p5.toNat] ∧
+      (∀ k, ¬(pr.toNat ≤ k ∧ k < pr.toNat + 48) → ¬(s.sp.toNat - 64 ≤ k ∧ k < s.sp.toNat) → s'.mem k = s.mem k) := by
+  have ir0 := (t184.val).isLt; have ip0 := (p0).isLt
+  have ir1 := (t189.val).isLt; have ip1 := (p1).isLt
+  have ir2 := (t194.val).isLt; have ip2 := (p2).isLt
+  have ir3 := (t199.val).isLt; have ip3 := (p3).isLt
+  have ir4 := (t204.val).isLt; have ip4 := (p4).isLt
+  have ir5 := (t207.val).isLt; have ip5 := (p5).isLt
+  have c5 := cmp_eq ht208 hb209 hb210
+  have c4 := cmp_hi ht211 hb212
+  have hle : val (2 ^ 64) [p0.toNat, p1.toNat, p2.toNat, p3.toNat, p4.toNat, p5.toNat] ≤ val (2 ^ 64) [t184.val.toNat, t189.val.toNat, t194.val.toNat, t199.val.toNat, t204.val.toNat, t207.val.toNat] := by
+    simp only [val_cons, val_nil]
+    clear * - c5 c4 ir0 ip0 ir1 ip1 ir2 ip2 ir3 ip3 ir4 ip4 ir5 ip5
+    omega
+  have hs := sub6_val ht225 ht226 ht227 ht228 ht229 ht230
+  simp only [Bool.not_true, Bool.toNat_false, Nat.add_zero] at hs
+  have hres := X86.mont_result hR2 hRe (Or.inr (sub_no_borrow hs hle (X86.val6_lt t225.val t226.val t227.val t228.val t229.val t230.val)))
+  have hq := mont_tail_hi4 s pr pt pp inv hr ht hp hstk hrs hts hps (t73 := t73) (t106 := t106) (t139 := t139) (t172 := t172) (t175 := t175) (t184 := t184) (t189 := t189) (t194 := t194) (t198 := t198) (t199 := t199) (t204 := t204) (t205 := t205) (t207 := t207) (t225 := t225) (t226 := t226) (t227 := t227) (t228 := t228) (t229 := t229) (t230 := t230) (p0 := p0) (p1 := p1) (p2 := p2) (p3 := p3) (p4 := p4) (p5 := p5) (l176 := l176) (l200 := l200) ht208 ht211 ht225 ht226 ht227 ht228 ht229 ht230 hb209 hb210 hb212
+  obtain ⟨rr0, rr1, rr2, rr3, rr4, rr5⟩ := hr.r6
+  obtain ⟨⟨alrr0, alrr1, alrr2, alrr3, alrr4, alrr5⟩, frr1, frr2, frr3, frr4, frr5⟩ := hr.addr6
+  have room4 := (hstk.f4 (by omega)).1
+  replace hrs := Hide.mk (And.intro room4 hrs)
+  simp only [OffStack] at hrs
+  refine ⟨_, hq, ⟨rfl, rfl, rfl, rfl, rfl, rfl, rfl, rfl, rfl, rfl, rfl, rfl, rfl, rfl, rfl⟩, ?_, ?_, ?_⟩
+  · simp only; a64_mem; exact hres.1
+  · simp only; a64_mem; exact hres.2
+  · intro k hk1 hk2
+    simp (disch := (clear * - hk1 hk2 room4; omega)) only [setMem_ne]
+
+set_option maxHeartbeats 1600000 in
 theorem mont_tail_lo4 (s : State) (pr pt pp inv : Word)
     (hr : Buf s pr 6 true) (ht : Buf s pt 12 false) (hp : Buf s pp 6 false)
     (hstk : Stack s 4) (hrs : OffStack s 4 pr 6) (hts : OffStack s 4 pt 12) (hps : OffStack s 4 pp 6) {p0 p1 p2 p3 p4 p5 l176 l200 : Word} {t73 t106 t139 t172 t175 t184 t189 t194 t198 t199 t204 t205 t207 t211 : ArithRes}
@@ -483,6 +603,45 @@ theorem mont_tail_lo4 (s : State) (pr pt pp inv : Word)
   simp only [OffStack] at hrs hts hps
   clear ht hp hr hstk
   a64_sym [← ht208, ← ht211, hb209, hb210, hb212, hb213]
+
+set_option maxHeartbeats 1600000 in
+set_option exponentiation.threshold 800 in
+theorem mont_end_lo4 (s : State) (pr pt pp inv : Word) {p0 p1 p2 p3 p4 p5 l176 l200 : Word} {t73 t106 t139 t172 t175 t184 t189 t194 t198 t199 t204 t205 t207 t211 : ArithRes} {T U : Nat}
+    (hr : Buf s pr 6 true) (ht : Buf s pt 12 false) (hp : Buf s pp 6 false)
+    (hstk : Stack s 4) (hrs : OffStack s 4 pr 6) (hts : OffStack s 4 pt 12) (hps : OffStack s 4 pp 6)
+    (ht208 : t208 = addWithCarry t207.val (~~~p5) true) (ht211 : t211 = addWithCarry t204.val (~~~p4) true)
+    (hb209 : (t208.c && !t208.z) = false) (hb210 : (!t208.c) = false) (hb212 : (t211.c && !t211.z) = false)
+    (hb213 : (!t211.c) = true)
+    (hR2 : val (2 ^ 64) [t184.val.toNat, t189.val.toNat, t194.val.toNat, t199.val.toNat, t204.val.toNat, t207.val.toNat] < 2 * val (2 ^ 64) [p0.toNat, p1.toNat, p2.toNat, p3.toNat, p4.toNat, p5.toNat])
+    (hRe : 2 ^ 384 * val (2 ^ 64) [t184.val.toNat, t189.val.toNat, t194.val.toNat, t199.val.toNat, t204.val.toNat, t207.val.toNat] = T + U * val (2 ^ 64) [p0.toNat, p1.toNat, p2.toNat, p3.toNat, p4.toNat, p5.toNat]) :
+    ∃ s', run embedded_pairing_core_arch_aarch64_fpbase_384_montgomery_reduce ({ x0 := pr, x1 := l176, x2 := t175.val, x3 := inv, x4 := t73.val, x5 := t106.val, x6 := t139.val, x7 := t172.val, x8 := s.x8, x9 := t205.val, x10 := t184.val, x11 := t189.val, x12 := t194.val, x13 := t199.val, x14 := t204.val, x15 := t207.val, x16 := s.x16, x17 := s.x17, x18 := s.x18, x19 := p0, x20 := p1, x21 := p2, x22 := p3, x23 := p4, x24 := p5, x25 := t198.val, x26 := l200, x27 := s.x27, x28 := s.x28, x29 := s.x29, x30 := s.x30, sp := s.sp - 16#64 - 16#64 - 16#64 - 16#64, nf := some t207.n, zf := some t207.z, cf := some t207.c, vf := some t207.v, mem := setMem (setMem (setMem (setMem (setMem (setMem (setMem (setMem (s.mem) (s.sp.toNat - 16) s.x19) (s.sp.toNat - 16 + 8) s.x20) (s.sp.toNat - 16 - 16) s.x21) (s.sp.toNat - 16 - 16 + 8) s.x22) (s.sp.toNat - 16 - 16 - 16) s.x23) (s.sp.toNat - 16 - 16 - 16 + 8) s.x24) (s.sp.toNat - 16 - 16 - 16 - 16) s.x25) (s.sp.toNat - 16 - 16 - 16 - 16 + 8) s.x26, readable := s.readable, writable := s.writable, pc := 208, status := .running } : State) 14 = s' ∧ Returned s s' ∧
+      val (2 ^ 64) [(s'.mem pr.toNat).toNat, (s'.mem (pr.toNat + 8)).toNat, (s'.mem (pr.toNat + 16)).toNat, (s'.mem (pr.toNat + 24)).toNat, (s'.mem (pr.toNat + 32)).toNat, (s'.mem (pr.toNat + 40)).toNat] < val (2 ^ 64) [p0.toNat, p1.toNat, p2.toNat, p3.toNat, p4.toNat, p5.toNat] ∧
+      (val (2 ^ 64) [(s'.mem pr.toNat).toNat, (s'.mem (pr.toNat + 8)).toNat, (s'.mem (pr.toNat + 16)).toNat, (s'.mem (pr.toNat + 24)).toNat, (s'.mem (pr.toNat + 32)).toNat, (s'.mem (pr.toNat + 40)).toNat] * 2 ^ 384) % val (2 ^ 64) [p0.toNat, p1.toNat, p2.toNat, p3.toNat, p4.toNat, p5.toNat] = T % val (2 ^ 64) [p0.toNat, p1.toNat, p2.toNat, p3.toNat, p4.toNat, p5.toNat] ∧
+      (∀ k, ¬(pr.toNat ≤ k ∧ k < pr.toNat + 48) → ¬(s.sp.toNat - 64 ≤ k ∧ k < s.sp.toNat) → s'.mem k = s.mem k) := by
+  have ir0 := (t184.val).isLt; have ip0 := (p0).isLt
+  have ir1 := (t189.val).isLt; have ip1 := (p1).isLt
+  have ir2 := (t194.val).isLt; have ip2 := (p2).isLt
+  have ir3 := (t199.val).isLt; have ip3 := (p3).isLt
+  have ir4 := (t204.val).isLt; have ip4 := (p4).isLt
+  have ir5 := (t207.val).isLt; have ip5 := (p5).isLt
+  have c5 := cmp_eq ht208 hb209 hb210
+  have c4 := cmp_lo ht211 hb213
+  have hlt : val (2 ^ 64) [t184.val.toNat, t189.val.toNat, t194.val.toNat, t199.val.toNat, t204.val.toNat, t207.val.toNat] < val (2 ^ 64) [p0.toNat, p1.toNat, p2.toNat, p3.toNat, p4.toNat, p5.toNat] := by
+    simp only [val_cons, val_nil]
+    clear * - c5 c4 ir0 ip0 ir1 ip1 ir2 ip2 ir3 ip3 ir4 ip4 ir5 ip5
+    omega
+  have hres := X86.mont_result hR2 hRe (Or.inl ⟨rfl, hlt⟩)
+  have hq := mont_tail_lo4 s pr pt pp inv hr ht hp hstk hrs hts hps (t73 := t73) (t106 := t106) (t139 := t139) (t172 := t172) (t175 := t175) (t184 := t184) (t189 := t189) (t194 := t194) (t198 := t198) (t199 := t199) (t204 := t204) (t205 := t205) (t207 := t207) (t211 := t211) (p0 := p0) (p1 := p1) (p2 := p2) (p3 := p3) (p4 := p4) (p5 := p5) (l176 := l176) (l200 := l200) ht208 ht211 hb209 hb210 hb212 hb213
+  obtain ⟨rr0, rr1, rr2, rr3, rr4, rr5⟩ := hr.r6
+  obtain ⟨⟨alrr0, alrr1, alrr2, alrr3, alrr4, alrr5⟩, frr1, frr2, frr3, frr4, frr5⟩ := hr.addr6
+  have room4 := (hstk.f4 (by omega)).1
+  replace hrs := Hide.mk (And.intro room4 hrs)
+  simp only [OffStack] at hrs
+  refine ⟨_, hq, ⟨rfl, rfl, rfl, rfl, rfl, rfl, rfl, rfl, rfl, rfl, rfl, rfl, rfl, rfl, rfl⟩, ?_, ?_, ?_⟩
+  · simp only; a64_mem; exact hres.1
+  · simp only; a64_mem; exact hres.2
+  · intro k hk1 hk2
+    simp (disch := (clear * - hk1 hk2 room4; omega)) only [setMem_ne]
 
 set_option maxHeartbeats 1600000 in
 theorem mont_tail_hi3 (s : State) (pr pt pp inv : Word)
@@ -516,6 +675,52 @@ theorem mont_tail_hi3 (s : State) (pr pt pp inv : Word)
   a64_sym [← ht208, ← ht211, ← ht214, ← ht225, ← ht226, ← ht227, ← ht228, ← ht229, ← ht230, hb209, hb210, hb212, hb213, hb215]
 
 set_option maxHeartbeats 1600000 in
+set_option exponentiation.threshold 800 in
+theorem mont_end_hi3 (s : State) (pr pt pp inv : Word) {p0 p1 p2 p3 p4 p5 l176 l200 : Word} {t73 t106 t139 t172 t175 t184 t189 t194 t198 t199 t204 t205 t207 t225 t226 t227 t228 t229 t230 : ArithRes} {T U : Nat}
+    (hr : Buf s pr 6 true) (ht : Buf s pt 12 false) (hp : Buf s pp 6 false)
+    (hstk : Stack s 4) (hrs : OffStack s 4 pr 6) (hts : OffStack s 4 pt 12) (hps : OffStack s 4 pp 6)
+    (ht208 : t208 = addWithCarry t207.val (~~~p5) true) (ht211 : t211 = addWithCarry t204.val (~~~p4) true)
+    (ht214 : t214 = addWithCarry t199.val (~~~p3) true) (ht225 : t225 = addWithCarry t184.val (~~~p0) true)
+    (ht226 : t226 = addWithCarry t189.val (~~~p1) t225.c) (ht227 : t227 = addWithCarry t194.val (~~~p2) t226.c)
+    (ht228 : t228 = addWithCarry t199.val (~~~p3) t227.c) (ht229 : t229 = addWithCarry t204.val (~~~p4) t228.c)
+    (ht230 : t230 = addWithCarry t207.val (~~~p5) t229.c) (hb209 : (t208.c && !t208.z) = false)
+    (hb210 : (!t208.c) = false) (hb212 : (t211.c && !t211.z) = false) (hb213 : (!t211.c) = false)
+    (hb215 : (t214.c && !t214.z) = true)
+    (hR2 : val (2 ^ 64) [t184.val.toNat, t189.val.toNat, t194.val.toNat, t199.val.toNat, t204.val.toNat, t207.val.toNat] < 2 * val (2 ^ 64) [p0.toNat, p1.toNat, p2.toNat, p3.toNat, p4.toNat, p5.toNat])
+    (hRe : 2 ^ 384 * val (2 ^ 64) [t184.val.toNat, t189.val.toNat, t194.val.toNat, t199.val.toNat, t204.val.toNat, t207.val.toNat] = T + U * val (2 ^ 64) [p0.toNat, p1.toNat, p2.toNat, p3.toNat, p4.toNat, p5.toNat]) :
+    ∃ s', run embedded_pairing_core_arch_aarch64_fpbase_384_montgomery_reduce ({ x0 := pr, x1 := l176, x2 := t175.val, x3 := inv, x4 := t73.val, x5 := t106.val, x6 := t139.val, x7 := t172.val, x8 := s.x8, x9 := t205.val, x10 := t184.val, x11 := t189.val, x12 := t194.val, x13 := t199.val, x14 := t204.val, x15 := t207.val, x16 := s.x16, x17 := s.x17, x18 := s.x18, x19 := p0, x20 := p1, x21 := p2, x22 := p3, x23 := p4, x24 := p5, x25 := t198.val, x26 := l200, x27 := s.x27, x28 := s.x28, x29 := s.x29, x30 := s.x30, sp := s.sp - 16#64 - 16#64 - 16#64 - 16#64, nf := some t207.n, zf := some t207.z, cf := some t207.c, vf := some t207.v, mem := setMem (setMem (setMem (setMem (setMem (setMem (setMem (setMem (s.mem) (s.sp.toNat - 16) s.x19) (s.sp.toNat - 16 + 8) s.x20) (s.sp.toNat - 16 - 16) s.x21) (s.sp.toNat - 16 - 16 + 8) s.x22) (s.sp.toNat - 16 - 16 - 16) s.x23) (s.sp.toNat - 16 - 16 - 16 + 8) s.x24) (s.sp.toNat - 16 - 16 - 16 - 16) s.x25) (s.sp.toNat - 16 - 16 - 16 - 16 + 8) s.x26, readable := s.readable, writable := s.writable, pc := 208, status := .running } : State) 22 = s' ∧ Returned s s' ∧
+      val (2 ^ 64) [(s'.mem pr.toNat).toNat, (s'.mem (pr.toNat + 8)).toNat, (s'.mem (pr.toNat + 16)).toNat, (s'.mem (pr.toNat + 24)).toNat, (s'.mem (pr.toNat + 32)).toNat, (s'.mem (pr.toNat + 40)).toNat] < val (2 ^ 64) [p0.toNat, p1.toNat, p2.toNat, p3.toNat, p4.toNat, p5.toNat] ∧
+      (val (2 ^ 64) [(s'.mem pr.toNat).toNat, (s'.mem (pr.toNat + 8)).toNat, (s'.mem (pr.toNat + 16)).toNat, (s'.mem (pr.toNat + 24)).toNat, (s'.mem (pr.toNat + 32)).toNat, (s'.mem (pr.toNat + 40)).toNat] * 2 ^ 384) % val (2 ^ 64) [p0.toNat, p1.toNat, p2.toNat, p3.toNat, p4.toNat, p5.toNat] = T % val (2 ^ 64) [p0.toNat, p1.toNat, p2.toNat, p3.toNat, p4.toNat, p5.toNat] ∧
+      (∀ k, ¬(pr.toNat ≤ k ∧ k < pr.toNat + 48) → ¬(s.sp.toNat - 64 ≤ k ∧ k < s.sp.toNat) → s'.mem k = s.mem k) := by
+  have ir0 := (t184.val).isLt; have ip0 := (p0).isLt
+  have ir1 := (t189.val).isLt; have ip1 := (p1).isLt
+  have ir2 := (t194.val).isLt; have ip2 := (p2).isLt
+  have ir3 := (t199.val).isLt; have ip3 := (p3).isLt
+  have ir4 := (t204.val).isLt; have ip4 := (p4).isLt
+  have ir5 := (t207.val).isLt; have ip5 := (p5).isLt
+  have c5 := cmp_eq ht208 hb209 hb210
+  have c4 := cmp_eq ht211 hb212 hb213
+  have c3 := cmp_hi ht214 hb215
+  have hle : val (2 ^ 64) [p0.toNat, p1.toNat, p2.toNat, p3.toNat, p4.toNat, p5.toNat] ≤ val (2 ^ 64) [t184.val.toNat, t189.val.toNat, t194.val.toNat, t199.val.toNat, t204.val.toNat, t207.val.toNat] := by
+    simp only [val_cons, val_nil]
+    clear * - c5 c4 c3 ir0 ip0 ir1 ip1 ir2 ip2 ir3 ip3 ir4 ip4 ir5 ip5
+    omega
+  have hs := sub6_val ht225 ht226 ht227 ht228 ht229 ht230
+  simp only [Bool.not_true, Bool.toNat_false, Nat.add_zero] at hs
+  have hres := X86.mont_result hR2 hRe (Or.inr (sub_no_borrow hs hle (X86.val6_lt t225.val t226.val t227.val t228.val t229.val t230.val)))
+  have hq := mont_tail_hi3 s pr pt pp inv hr ht hp hstk hrs hts hps (t73 := t73) (t106 := t106) (t139 := t139) (t172 := t172) (t175 := t175) (t184 := t184) (t189 := t189) (t194 := t194) (t198 := t198) (t199 := t199) (t204 := t204) (t205 := t205) (t207 := t207) (t225 := t225) (t226 := t226) (t227 := t227) (t228 := t228) (t229 := t229) (t230 := t230) (p0 := p0) (p1 := p1) (p2 := p2) (p3 := p3) (p4 := p4) (p5 := p5) (l176 := l176) (l200 := l200) ht208 ht211 ht214 ht225 ht226 ht227 ht228 ht229 ht230 hb209 hb210 hb212 hb213 hb215
+  obtain ⟨rr0, rr1, rr2, rr3, rr4, rr5⟩ := hr.r6
+  obtain ⟨⟨alrr0, alrr1, alrr2, alrr3, alrr4, alrr5⟩, frr1, frr2, frr3, frr4, frr5⟩ := hr.addr6
+  have room4 := (hstk.f4 (by omega)).1
+  replace hrs := Hide.mk (And.intro room4 hrs)
+  simp only [OffStack] at hrs
+  refine ⟨_, hq, ⟨rfl, rfl, rfl, rfl, rfl, rfl, rfl, rfl, rfl, rfl, rfl, rfl, rfl, rfl, rfl⟩, ?_, ?_, ?_⟩
+  · simp only; a64_mem; exact hres.1
+  · simp only; a64_mem; exact hres.2
+  · intro k hk1 hk2
+    simp (disch := (clear * - hk1 hk2 room4; omega)) only [setMem_ne]
+
+set_option maxHeartbeats 1600000 in
 theorem mont_tail_lo3 (s : State) (pr pt pp inv : Word)
     (hr : Buf s pr 6 true) (ht : Buf s pt 12 false) (hp : Buf s pp 6 false)
     (hstk : Stack s 4) (hrs : OffStack s 4 pr 6) (hts : OffStack s 4 pt 12) (hps : OffStack s 4 pp 6) {p0 p1 p2 p3 p4 p5 l176 l200 : Word} {t73 t106 t139 t172 t175 t184 t189 t194 t198 t199 t204 t205 t207 t214 : ArithRes}
@@ -542,6 +747,47 @@ theorem mont_tail_lo3 (s : State) (pr pt pp inv : Word)
   simp only [OffStack] at hrs hts hps
   clear ht hp hr hstk
   a64_sym [← ht208, ← ht211, ← ht214, hb209, hb210, hb212, hb213, hb215, hb216]
+
+set_option maxHeartbeats 1600000 in
+set_option exponentiation.threshold 800 in
+theorem mont_end_lo3 (s : State) (pr pt pp inv : Word) {p0 p1 p2 p3 p4 p5 l176 l200 : Word} {t73 t106 t139 t172 t175 t184 t189 t194 t198 t199 t204 t205 t207 t214 : ArithRes} {T U : Nat}
+    (hr : Buf s pr 6 true) (ht : Buf s pt 12 false) (hp : Buf s pp 6 false)
+    (hstk : Stack s 4) (hrs : OffStack s 4 pr 6) (hts : OffStack s 4 pt 12) (hps : OffStack s 4 pp 6)
+    (ht208 : t208 = addWithCarry t207.val (~~~p5) true) (ht211 : t211 = addWithCarry t204.val (~~~p4) true)
+    (ht214 : t214 = addWithCarry t199.val (~~~p3) true) (hb209 : (t208.c && !t208.z) = false) (hb210 : (!t208.c) = false)
+    (hb212 : (t211.c && !t211.z) = false) (hb213 : (!t211.c) = false) (hb215 : (t214.c && !t214.z) = false)
+    (hb216 : (!t214.c) = true)
+    (hR2 : val (2 ^ 64) [t184.val.toNat, t189.val.toNat, t194.val.toNat, t199.val.toNat, t204.val.toNat, t207.val.toNat] < 2 * val (2 ^ 64) [p0.toNat, p1.toNat, p2.toNat, p3.toNat, p4.toNat, p5.toNat])
+    (hRe : 2 ^ 384 * val (2 ^ 64) [t184.val.toNat, t189.val.toNat, t194.val.toNat, t199.val.toNat, t204.val.toNat, t207.val.toNat] = T + U * val (2 ^ 64) [p0.toNat, p1.toNat, p2.toNat, p3.toNat, p4.toNat, p5.toNat]) :
+    ∃ s', run embedded_pairing_core_arch_aarch64_fpbase_384_montgomery_reduce ({ x0 := pr, x1 := l176, x2 := t175.val, x3 := inv, x4 := t73.val, x5 := t106.val, x6 := t139.val, x7 := t172.val, x8 := s.x8, x9 := t205.val, x10 := t184.val, x11 := t189.val, x12 := t194.val, x13 := t199.val, x14 := t204.val, x15 := t207.val, x16 := s.x16, x17 := s.x17, x18 := s.x18, x19 := p0, x20 := p1, x21 := p2, x22 := p3, x23 := p4, x24 := p5, x25 := t198.val, x26 := l200, x27 := s.x27, x28 := s.x28, x29 := s.x29, x30 := s.x30, sp := s.sp - 16#64 - 16#64 - 16#64 - 16#64, nf := some t207.n, zf := some t207.z, cf := some t207.c, vf := some t207.v, mem := setMem (setMem (setMem (setMem (setMem (setMem (setMem (setMem (s.mem) (s.sp.toNat - 16) s.x19) (s.sp.toNat - 16 + 8) s.x20) (s.sp.toNat - 16 - 16) s.x21) (s.sp.toNat - 16 - 16 + 8) s.x22) (s.sp.toNat - 16 - 16 - 16) s.x23) (s.sp.toNat - 16 - 16 - 16 + 8) s.x24) (s.sp.toNat - 16 - 16 - 16 - 16) s.x25) (s.sp.toNat - 16 - 16 - 16 - 16 + 8) s.x26, readable := s.readable, writable := s.writable, pc := 208, status := .running } : State) 17 = s' ∧ Returned s s' ∧
+      val (2 ^ 64) [(s'.mem pr.toNat).toNat, (s'.mem (pr.toNat + 8)).toNat, (s'.mem (pr.toNat + 16)).toNat, (s'.mem (pr.toNat + 24)).toNat, (s'.mem (pr.toNat + 32)).toNat, (s'.mem (pr.toNat + 40)).toNat] < val (2 ^ 64) [p0.toNat, p1.toNat, p2.toNat, p3.toNat, p4.toNat, p5.toNat] ∧
+      (val (2 ^ 64) [(s'.mem pr.toNat).toNat, (s'.mem (pr.toNat + 8)).toNat, (s'.mem (pr.toNat + 16)).toNat, (s'.mem (pr.toNat + 24)).toNat, (s'.mem (pr.toNat + 32)).toNat, (s'.mem (pr.toNat + 40)).toNat] * 2 ^ 384) % val (2 ^ 64) [p0.toNat, p1.toNat, p2.toNat, p3.toNat, p4.toNat, p5.toNat] = T % val (2 ^ 64) [p0.toNat, p1.toNat, p2.toNat, p3.toNat, p4.toNat, p5.toNat] ∧
+      (∀ k, ¬(pr.toNat ≤ k ∧ k < pr.toNat + 48) → ¬(s.sp.toNat - 64 ≤ k ∧ k < s.sp.toNat) → s'.mem k = s.mem k) := by
+  have ir0 := (t184.val).isLt; have ip0 := (p0).isLt
+  have ir1 := (t189.val).isLt; have ip1 := (p1).isLt
+  have ir2 := (t194.val).isLt; have ip2 := (p2).isLt
+  have ir3 := (t199.val).isLt; have ip3 := (p3).isLt
+  have ir4 := (t204.val).isLt; have ip4 := (p4).isLt
+  have ir5 := (t207.val).isLt; have ip5 := (p5).isLt
+  have c5 := cmp_eq ht208 hb209 hb210
+  have c4 := cmp_eq ht211 hb212 hb213
+  have c3 := cmp_lo ht214 hb216
+  have hlt : val (2 ^ 64) [t184.val.toNat, t189.val.toNat, t194.val.toNat, t199.val.toNat, t204.val.toNat, t207.val.toNat] < val (2 ^ 64) [p0.toNat, p1.toNat, p2.toNat, p3.toNat, p4.toNat, p5.toNat] := by
+    simp only [val_cons, val_nil]
+    clear * - c5 c4 c3 ir0 ip0 ir1 ip1 ir2 ip2 ir3 ip3 ir4 ip4 ir5 ip5
+    omega
+  have hres := X86.mont_result hR2 hRe (Or.inl ⟨rfl, hlt⟩)
+  have hq := mont_tail_lo3 s pr pt pp inv hr ht hp hstk hrs hts hps (t73 := t73) (t106 := t106) (t139 := t139) (t172 := t172) (t175 := t175) (t184 := t184) (t189 := t189) (t194 := t194) (t198 := t198) (t199 := t199) (t204 := t204) (t205 := t205) (t207 := t207) (t214 := t214) (p0 := p0) (p1 := p1) (p2 := p2) (p3 := p3) (p4 := p4) (p5 := p5) (l176 := l176) (l200 := l200) ht208 ht211 ht214 hb209 hb210 hb212 hb213 hb215 hb216
+  obtain ⟨rr0, rr1, rr2, rr3, rr4, rr5⟩ := hr.r6
+  obtain ⟨⟨alrr0, alrr1, alrr2, alrr3, alrr4, alrr5⟩, frr1, frr2, frr3, frr4, frr5⟩ := hr.addr6
+  have room4 := (hstk.f4 (by omega)).1
+  replace hrs := Hide.mk (And.intro room4 hrs)
+  simp only [OffStack] at hrs
+  refine ⟨_, hq, ⟨rfl, rfl, rfl, rfl, rfl, rfl, rfl, rfl, rfl, rfl, rfl, rfl, rfl, rfl, rfl⟩, ?_, ?_, ?_⟩
+  · simp only; a64_mem; exact hres.1
+  · simp only; a64_mem; exact hres.2
+  · intro k hk1 hk2
+    simp (disch := (clear * - hk1 hk2 room4; omega)) only [setMem_ne]
 
 set_option maxHeartbeats 1600000 in
 theorem mont_tail_hi2 (s : State) (pr pt pp inv : Word)
@@ -576,6 +822,54 @@ theorem mont_tail_hi2 (s : State) (pr pt pp inv : Word)
   a64_sym [← ht208, ← ht211, ← ht214, ← ht217, ← ht225, ← ht226, ← ht227, ← ht228, ← ht229, ← ht230, hb209, hb210, hb212, hb213, hb215, hb216, hb218]
 
 set_option maxHeartbeats 1600000 in
+set_option exponentiation.threshold 800 in
+theorem mont_end_hi2 (s : State) (pr pt pp inv : Word) {p0 p1 p2 p3 p4 p5 l176 l200 : Word} {t73 t106 t139 t172 t175 t184 t189 t194 t198 t199 t204 t205 t207 t225 t226 t227 t228 t229 t230 : ArithRes} {T U : Nat}
+    (hr : Buf s pr 6 true) (ht : Buf s pt 12 false) (hp : Buf s pp 6 false)
+    (hstk : Stack s 4) (hrs : OffStack s 4 pr 6) (hts : OffStack s 4 pt 12) (hps : OffStack s 4 pp 6)
+    (ht208 : t208 = addWithCarry t207.val (~~~p5) true) (ht211 : t211 = addWithCarry t204.val (~~~p4) true)
+    (ht214 : t214 = addWithCarry t199.val (~~~p3) true) (ht217 : t217 = addWithCarry t194.val (~~~p2) true)
+    (ht225 : t225 = addWithCarry t184.val (~~~p0) true) (ht226 : t226 = addWithCarry t189.val (~~~p1) t225.c)
+    (ht227 : t227 = addWithCarry t194.val (~~~p2) t226.c) (ht228 : t228 = addWithCarry t199.val (~~~p3) t227.c)
+    (ht229 : t229 = addWithCarry t204.val (~~~p4) t228.c) (ht230 : t230 = addWithCarry t207.val (~~~p5) t229.c)
+    (hb209 : (t208.c && !t208.z) = false) (hb210 : (!t208.c) = false) (hb212 : (t211.c && !t211.z) = false)
+    (hb213 : (!t211.c) = false) (hb215 : (t214.c && !t214.z) = false) (hb216 : (!t214.c) = false)
+    (hb218 : (t217.c && !t217.z) = true)
+    (hR2 : val (2 ^ 64) [t184.val.toNat, t189.val.toNat, t194.val.toNat, t199.val.toNat, t204.val.toNat, t207.val.toNat] < 2 * val (2 ^ 64) [p0.toNat, p1.toNat, p2.toNat, p3.toNat, p4.toNat, p5.toNat])
+    (hRe : 2 ^ 384 * val (2 ^ 64) [t184.val.toNat, t189.val.toNat, t194.val.toNat, t199.val.toNat, t204.val.toNat, t207.val.toNat] = T + U * val (2 ^ 64) [p0.toNat, p1.toNat, p2.toNat, p3.toNat, p4.toNat, p5.toNat]) :
+    ∃ s', run embedded_pairing_core_arch_aarch64_fpbase_384_montgomery_reduce ({ x0 := pr, x1 := l176, x2 := t175.val, x3 := inv, x4 := t73.val, x5 := t106.val, x6 := t139.val, x7 := t172.val, x8 := s.x8, x9 := t205.val, x10 := t184.val, x11 := t189.val, x12 := t194.val, x13 := t199.val, x14 := t204.val, x15 := t207.val, x16 := s.x16, x17 := s.x17, x18 := s.x18, x19 := p0, x20 := p1, x21 := p2, x22 := p3, x23 := p4, x24 := p5, x25 := t198.val, x26 := l200, x27 := s.x27, x28 := s.x28, x29 := s.x29, x30 := s.x30, sp := s.sp - 16#64 - 16#64 - 16#64 - 16#64, nf := some t207.n, zf := some t207.z, cf := some t207.c, vf := some t207.v, mem := setMem (setMem (setMem (setMem (setMem (setMem (setMem (setMem (s.mem) (s.sp.toNat - 16) s.x19) (s.sp.toNat - 16 + 8) s.x20) (s.sp.toNat - 16 - 16) s.x21) (s.sp.toNat - 16 - 16 + 8) s.x22) (s.sp.toNat - 16 - 16 - 16) s.x23) (s.sp.toNat - 16 - 16 - 16 + 8) s.x24) (s.sp.toNat - 16 - 16 - 16 - 16) s.x25) (s.sp.toNat - 16 - 16 - 16 - 16 + 8) s.x26, readable := s.readable, writable := s.writable, pc := 208, status := .running } : State) 25 = s' ∧ Returned s s' ∧
+      val (2 ^ 64) [(s'.mem pr.toNat).toNat, (s'.mem (pr.toNat + 8)).toNat, (s'.mem (pr.toNat + 16)).toNat, (s'.mem (pr.toNat + 24)).toNat, (s'.mem (pr.toNat + 32)).toNat, (s'.mem (pr.toNat + 40)).toNat] < val (2 ^ 64) [p0.toNat, p1.toNat, p2.toNat, p3.toNat, p4.toNat, p5.toNat] ∧
+      (val (2 ^ 64) [(s'.mem pr.toNat).toNat, (s'.mem (pr.toNat + 8)).toNat, (s'.mem (pr.toNat + 16)).toNat, (s'.mem (pr.toNat + 24)).toNat, (s'.mem (pr.toNat + 32)).toNat, (s'.mem (pr.toNat + 40)).toNat] * 2 ^ 384) % val (2 ^ 64) [p0.toNat, p1.toNat, p2.toNat, p3.toNat, p4.toNat, p5.toNat] = T % val (2 ^ 64) [p0.toNat, p1.toNat, p2.toNat, p3.toNat, p4.toNat, p5.toNat] ∧
+      (∀ k, ¬(pr.toNat ≤ k ∧ k < pr.toNat + 48) → ¬(s.sp.toNat - 64 ≤ k ∧ k < s.sp.toNat) → s'.mem k = s.mem k) := by
+  have ir0 := (t184.val).isLt; have ip0 := (p0).isLt
+  have ir1 := (t189.val).isLt; have ip1 := (p1).isLt
+  have ir2 := (t194.val).isLt; have ip2 := (p2).isLt
+  have ir3 := (t199.val).isLt; have ip3 := (p3).isLt
+  have ir4 := (t204.val).isLt; have ip4 := (p4).isLt
+  have ir5 := (t207.val).isLt; have ip5 := (p5).isLt
+  have c5 := cmp_eq ht208 hb209 hb210
+  have c4 := cmp_eq ht211 hb212 hb213
+  have c3 := cmp_eq ht214 hb215 hb216
+  have c2 := cmp_hi ht217 hb218
+  have hle : val (2 ^ 64) [p0.toNat, p1.toNat, p2.toNat, p3.toNat, p4.toNat, p5.toNat] ≤ val (2 ^ 64) [t184.val.toNat, t189.val.toNat, t194.val.toNat, t199.val.toNat, t204.val.toNat, t207.val.toNat] := by
+    simp only [val_cons, val_nil]
+    clear * - c5 c4 c3 c2 ir0 ip0 ir1 ip1 ir2 ip2 ir3 ip3 ir4 ip4 ir5 ip5
+    omega
+  have hs := sub6_val ht225 ht226 ht227 ht228 ht229 ht230
+  simp only [Bool.not_true, Bool.toNat_false, Nat.add_zero] at hs
+  have hres := X86.mont_result hR2 hRe (Or.inr (sub_no_borrow hs hle (X86.val6_lt t225.val t226.val t227.val t228.val t229.val t230.val)))
+  have hq := mont_tail_hi2 s pr pt pp inv hr ht hp hstk hrs hts hps (t73 := t73) (t106 := t106) (t139 := t139) (t172 := t172) (t175 := t175) (t184 := t184) (t189 := t189) (t194 := t194) (t198 := t198) (t199 := t199) (t204 := t204) (t205 := t205) (t207 := t207) (t225 := t225) (t226 := t226) (t227 := t227) (t228 := t228) (t229 := t229) (t230 := t230) (p0 := p0) (p1 := p1) (p2 := p2) (p3 := p3) (p4 := p4) (p5 := p5) (l176 := l176) (l200 := l200) ht208 ht211 ht214 ht217 ht225 ht226 ht227 ht228 ht229 ht230 hb209 hb210 hb212 hb213 hb215 hb216 hb218
+  obtain ⟨rr0, rr1, rr2, rr3, rr4, rr5⟩ := hr.r6
+  obtain ⟨⟨alrr0, alrr1, alrr2, alrr3, alrr4, alrr5⟩, frr1, frr2, frr3, frr4, frr5⟩ := hr.addr6
+  have room4 := (hstk.f4 (by omega)).1
+  replace hrs := Hide.mk (And.intro room4 hrs)
+  simp only [OffStack] at hrs
+  refine ⟨_, hq, ⟨rfl, rfl, rfl, rfl, rfl, rfl, rfl, rfl, rfl, rfl, rfl, rfl, rfl, rfl, rfl⟩, ?_, ?_, ?_⟩
+  · simp only; a64_mem; exact hres.1
+  · simp only; a64_mem; exact hres.2
+  · intro k hk1 hk2
+    simp (disch := (clear * - hk1 hk2 room4; omega)) only [setMem_ne]
+
+set_option maxHeartbeats 1600000 in
 theorem mont_tail_lo2 (s : State) (pr pt pp inv : Word)
     (hr : Buf s pr 6 true) (ht : Buf s pt 12 false) (hp : Buf s pp 6 false)
     (hstk : Stack s 4) (hrs : OffStack s 4 pr 6) (hts : OffStack s 4 pt 12) (hps : OffStack s 4 pp 6) {p0 p1 p2 p3 p4 p5 l176 l200 : Word} {t73 t106 t139 t172 t175 t184 t189 t194 t198 t199 t204 t205 t207 t217 : ArithRes}
@@ -603,6 +897,49 @@ theorem mont_tail_lo2 (s : State) (pr pt pp inv : Word)
   simp only [OffStack] at hrs hts hps
   clear ht hp hr hstk
   a64_sym [← ht208, ← ht211, ← ht214, ← ht217, hb209, hb210, hb212, hb213, hb215, hb216, hb218, hb219]
+
+set_option maxHeartbeats 1600000 in
+set_option exponentiation.threshold 800 in
+theorem mont_end_lo2 (s : State) (pr pt pp inv : Word) {p0 p1 p2 p3 p4 p5 l176 l200 : Word} {t73 t106 t139 t172 t175 t184 t189 t194 t198 t199 t204 t205 t207 t217 : ArithRes} {T U : Nat}
+    (hr : Buf s pr 6 true) (ht : Buf s pt 12 false) (hp : Buf s pp 6 false)
+    (hstk : Stack s 4) (hrs : OffStack s 4 pr 6) (hts : OffStack s 4 pt 12) (hps : OffStack s 4 pp 6)
+    (ht208 : t208 = addWithCarry t207.val (~~~p5) true) (ht211 : t211 = addWithCarry t204.val (~~~p4) true)
+    (ht214 : t214 = addWithCarry t199.val (~~~p3) true) (ht217 : t217 = addWithCarry t194.val (~~~p2) true)
+    (hb209 : (t208.c && !t208.z) = false) (hb210 : (!t208.c) = false) (hb212 : (t211.c && !t211.z) = false)
+    (hb213 : (!t211.c) = false) (hb215 : (t214.c && !t214.z) = false) (hb216 : (!t214.c) = false)
+    (hb218 : (t217.c && !t217.z) = false) (hb219 : (!t217.c) = true)
+    (hR2 : val (2 ^ 64) [t184.val.toNat, t189.val.toNat, t194.val.toNat, t199.val.toNat, t204.val.toNat, t207.val.toNat] < 2 * val (2 ^ 64) [p0.toNat, p1.toNat, p2.toNat, p3.toNat, p4.toNat, p5.toNat])
+    (hRe : 2 ^ 384 * val (2 ^ 64) [t184.val.toNat, t189.val.toNat, t194.val.toNat, t199.val.toNat, t204.val.toNat, t207.val.toNat] = T + U * val (2 ^ 64) [p0.toNat, p1.toNat, p2.toNat, p3.toNat, p4.toNat, p5.toNat]) :
+    ∃ s', run embedded_pairing_core_arch_aarch64_fpbase_384_montgomery_reduce ({ x0 := pr, x1 := l176, x2 := t175.val, x3 := inv, x4 := t73.val, x5 := t106.val, x6 := t139.val, x7 := t172.val, x8 := s.x8, x9 := t205.val, x10 := t184.val, x11 := t189.val, x12 := t194.val, x13 := t199.val, x14 := t204.val, x15 := t207.val, x16 := s.x16, x17 := s.x17, x18 := s.x18, x19 := p0, x20 := p1, x21 := p2, x22 := p3, x23 := p4, x24 := p5, x25 := t198.val, x26 := l200, x27 := s.x27, x28 := s.x28, x29 := s.x29, x30 := s.x30, sp := s.sp - 16#64 - 16#64 - 16#64 - 16#64, nf := some t207.n, zf := some t207.z, cf := some t207.c, vf := some t207.v, mem := setMem (setMem (setMem (setMem (setMem (setMem (setMem (setMem (s.mem) (s.sp.toNat - 16) s.x19) (s.sp.toNat - 16 + 8) s.x20) (s.sp.toNat - 16 - 16) s.x21) (s.sp.toNat - 16 - 16 + 8) s.x22) (s.sp.toNat - 16 - 16 - 16) s.x23) (s.sp.toNat - 16 - 16 - 16 + 8) s.x24) (s.sp.toNat - 16 - 16 - 16 - 16) s.x25) (s.sp.toNat - 16 - 16 - 16 - 16 + 8) s.x26, readable := s.readable, writable := s.writable, pc := 208, status := .running } : State) 20 = s' ∧ Returned s s' ∧
+      val (2 ^ 64) [(s'.mem pr.toNat).toNat, (s'.mem (pr.toNat + 8)).toNat, (s'.mem (pr.toNat + 16)).toNat, (s'.mem (pr.toNat + 24)).toNat, (s'.mem (pr.toNat + 32)).toNat, (s'.mem (pr.toNat + 40)).toNat] < val (2 ^ 64) [p0.toNat, p1.toNat, p2.toNat, p3.toNat, p4.toNat, p5.toNat] ∧
+      (val (2 ^ 64) [(s'.mem pr.toNat).toNat, (s'.mem (pr.toNat + 8)).toNat, (s'.mem (pr.toNat + 16)).toNat, (s'.mem (pr.toNat + 24)).toNat, (s'.mem (pr.toNat + 32)).toNat, (s'.mem (pr.toNat + 40)).toNat] * 2 ^ 384) % val (2 ^ 64) [p0.toNat, p1.toNat, p2.toNat, p3.toNat, p4.toNat, p5.toNat] = T % val (2 ^ 64) [p0.toNat, p1.toNat, p2.toNat, p3.toNat, p4.toNat, p5.toNat] ∧
+      (∀ k, ¬(pr.toNat ≤ k ∧ k < pr.toNat + 48) → ¬(s.sp.toNat - 64 ≤ k ∧ k < s.sp.toNat) → s'.mem k = s.mem k) := by
+  have ir0 := (t184.val).isLt; have ip0 := (p0).isLt
+  have ir1 := (t189.val).isLt; have ip1 := (p1).isLt
+  have ir2 := (t194.val).isLt; have ip2 := (p2).isLt
+  have ir3 := (t199.val).isLt; have ip3 := (p3).isLt
+  have ir4 := (t204.val).isLt; have ip4 := (p4).isLt
+  have ir5 := (t207.val).isLt; have ip5 := (p5).isLt
+  have c5 := cmp_eq ht208 hb209 hb210
+  have c4 := cmp_eq ht211 hb212 hb213
+  have c3 := cmp_eq ht214 hb215 hb216
+  have c2 := cmp_lo ht217 hb219
+  have hlt : val (2 ^ 64) [t184.val.toNat, t189.val.toNat, t194.val.toNat, t199.val.toNat, t204.val.toNat, t207.val.toNat] < val (2 ^ 64) [p0.toNat, p1.toNat, p2.toNat, p3.toNat, p4.toNat, p5.toNat] := by
+    simp only [val_cons, val_nil]
+    clear * - c5 c4 c3 c2 ir0 ip0 ir1 ip1 ir2 ip2 ir3 ip3 ir4 ip4 ir5 ip5
+    omega
+  have hres := X86.mont_result hR2 hRe (Or.inl ⟨rfl, hlt⟩)
+  have hq := mont_tail_lo2 s pr pt pp inv hr ht hp hstk hrs hts hps (t73 := t73) (t106 := t106) (t139 := t139) (t172 := t172) (t175 := t175) (t184 := t184) (t189 := t189) (t194 := t194) (t198 := t198) (t199 := t199) (t204 := t204) (t205 := t205) (t207 := t207) (t217 := t217) (p0 := p0) (p1 := p1) (p2 := p2) (p3 := p3) (p4 := p4) (p5 := p5) (l176 := l176) (l200 := l200) ht208 ht211 ht214 ht217 hb209 hb210 hb212 hb213 hb215 hb216 hb218 hb219
+  obtain ⟨rr0, rr1, rr2, rr3, rr4, rr5⟩ := hr.r6
+  obtain ⟨⟨alrr0, alrr1, alrr2, alrr3, alrr4, alrr5⟩, frr1, frr2, frr3, frr4, frr5⟩ := hr.addr6
+  have room4 := (hstk.f4 (by omega)).1
+  replace hrs := Hide.mk (And.intro room4 hrs)
+  simp only [OffStack] at hrs
+  refine ⟨_, hq, ⟨rfl, rfl, rfl, rfl, rfl, rfl, rfl, rfl, rfl, rfl, rfl, rfl, rfl, rfl, rfl⟩, ?_, ?_, ?_⟩
+  · simp only; a64_mem; exact hres.1
+  · simp only; a64_mem; exact hres.2
+  · intro k hk1 hk2
+    simp (disch := (clear * - hk1 hk2 room4; omega)) only [setMem_ne]
 
 set_option maxHeartbeats 1600000 in
 theorem mont_tail_hi1 (s : State) (pr pt pp inv : Word)
@@ -638,6 +975,56 @@ theorem mont_tail_hi1 (s : State) (pr pt pp inv : Word)
   a64_sym [← ht208, ← ht211, ← ht214, ← ht217, ← ht220, ← ht225, ← ht226, ← ht227, ← ht228, ← ht229, ← ht230, hb209, hb210, hb212, hb213, hb215, hb216, hb218, hb219, hb221]
 
 set_option maxHeartbeats 1600000 in
+set_option exponentiation.threshold 800 in
+theorem mont_end_hi1 (s : State) (pr pt pp inv : Word) {p0 p1 p2 p3 p4 p5 l176 l200 : Word} {t73 t106 t139 t172 t175 t184 t189 t194 t198 t199 t204 t205 t207 t225 t226 t227 t228 t229 t230 : ArithRes} {T U : Nat}
+    (hr : Buf s pr 6 true) (ht : Buf s pt 12 false) (hp : Buf s pp 6 false)
+    (hstk : Stack s 4) (hrs : OffStack s 4 pr 6) (hts : OffStack s 4 pt 12) (hps : OffStack s 4 pp 6)
+    (ht208 : t208 = addWithCarry t207.val (~~~p5) true) (ht211 : t211 = addWithCarry t204.val (~~~p4) true)
+    (ht214 : t214 = addWithCarry t199.val (~~~p3) true) (ht217 : t217 = addWithCarry t194.val (~~~p2) true)
+    (ht220 : t220 = addWithCarry t189.val (~~~p1) true) (ht225 : t225 = addWithCarry t184.val (~~~p0) true)
+    (ht226 : t226 = addWithCarry t189.val (~~~p1) t225.c) (ht227 : t227 = addWithCarry t194.val (~~~p2) t226.c)
+    (ht228 : t228 = addWithCarry t199.val (~~~p3) t227.c) (ht229 : t229 = addWithCarry t204.val (~~~p4) t228.c)
+    (ht230 : t230 = addWithCarry t207.val (~~~p5) t229.c) (hb209 : (t208.c && !t208.z) = false)
+    (hb210 : (!t208.c) = false) (hb212 : (t211.c && !t211.z) = false) (hb213 : (!t211.c) = false)
+    (hb215 : (t214.c && !t214.z) = false) (hb216 : (!t214.c) = false) (hb218 : (t217.c && !t217.z) = false)
+    (hb219 : (!t217.c) = false) (hb221 : (t220.c && !t220.z) = true)
+    (hR2 : val (2 ^ 64) [t184.val.toNat, t189.val.toNat, t194.val.toNat, t199.val.toNat, t204.val.toNat, t207.val.toNat] < 2 * val (2 ^ 64) [p0.toNat, p1.toNat, p2.toNat, p3.toNat, p4.toNat, p5.toNat])
+    (hRe : 2 ^ 384 * val (2 ^ 64) [t184.val.toNat, t189.val.toNat, t194.val.toNat, t199.val.toNat, t204.val.toNat, t207.val.toNat] = T + U * val (2 ^ 64) [p0.toNat, p1.toNat, p2.toNat, p3.toNat, p4.toNat, p5.toNat]) :
+    ∃ s', run embedded_pairing_core_arch_aarch64_fpbase_384_montgomery_reduce ({ x0 := pr, x1 := l176, x2 := t175.val, x3 := inv, x4 := t73.val, x5 := t106.val, x6 := t139.val, x7 := t172.val, x8 := s.x8, x9 := t205.val, x10 := t184.val, x11 := t189.val, x12 := t194.val, x13 := t199.val, x14 := t204.val, x15 := t207.val, x16 := s.x16, x17 := s.x17, x18 := s.x18, x19 := p0, x20 := p1, x21 := p2, x22 := p3, x23 := p4, x24 := p5, x25 := t198.val, x26 := l200, x27 := s.x27, x28 := s.x28, x29 := s.x29, x30 := s.x30, sp := s.sp - 16#64 - 16#64 - 16#64 - 16#64, nf := some t207.n, zf := some t207.z, cf := some t207.c, vf := some t207.v, mem := setMem (setMem (setMem (setMem (setMem (setMem (setMem (setMem (s.mem) (s.sp.toNat - 16) s.x19) (s.sp.toNat - 16 + 8) s.x20) (s.sp.toNat - 16 - 16) s.x21) (s.sp.toNat - 16 - 16 + 8) s.x22) (s.sp.toNat - 16 - 16 - 16) s.x23) (s.sp.toNat - 16 - 16 - 16 + 8) s.x24) (s.sp.toNat - 16 - 16 - 16 - 16) s.x25) (s.sp.toNat - 16 - 16 - 16 - 16 + 8) s.x26, readable := s.readable, writable := s.writable, pc := 208, status := .running } : State) 28 = s' ∧ Returned s s' ∧
+      val (2 ^ 64) [(s'.mem pr.toNat).toNat, (s'.mem (pr.toNat + 8)).toNat, (s'.mem (pr.toNat + 16)).toNat, (s'.mem (pr.toNat + 24)).toNat, (s'.mem (pr.toNat + 32)).toNat, (s'.mem (pr.toNat + 40)).toNat] < val (2 ^ 64) [p0.toNat, p1.toNat, p2.toNat, p3.toNat, p4.toNat, p5.toNat] ∧
+      (val (2 ^ 64) [(s'.mem pr.toNat).toNat, (s'.mem (pr.toNat + 8)).toNat, (s'.mem (pr.toNat + 16)).toNat, (s'.mem (pr.toNat + 24)).toNat, (s'.mem (pr.toNat + 32)).toNat, (s'.mem (pr.toNat + 40)).toNat] * 2 ^ 384) % val (2 ^ 64) [p0.toNat, p1.toNat, p2.toNat, p3.toNat, p4.toNat, p5.toNat] = T % val (2 ^ 64) [p0.toNat, p1.toNat, p2.toNat, p3.toNat, p4.toNat, p5.toNat] ∧
+      (∀ k, ¬(pr.toNat ≤ k ∧ k < pr.toNat + 48) → ¬(s.sp.toNat - 64 ≤ k ∧ k < s.sp.toNat) → s'.mem k = s.mem k) := by
+  have ir0 := (t184.val).isLt; have ip0 := (p0).isLt
+  have ir1 := (t189.val).isLt; have ip1 := (p1).isLt
+  have ir2 := (t194.val).isLt; have ip2 := (p2).isLt
+  have ir3 := (t199.val).isLt; have ip3 := (p3).isLt
+  have ir4 := (t204.val).isLt; have ip4 := (p4).isLt
+  have ir5 := (t207.val).isLt; have ip5 := (p5).isLt
+  have c5 := cmp_eq ht208 hb209 hb210
+  have c4 := cmp_eq ht211 hb212 hb213
+  have c3 := cmp_eq ht214 hb215 hb216
+  have c2 := cmp_eq ht217 hb218 hb219
+  have c1 := cmp_hi ht220 hb221
+  have hle : val (2 ^ 64) [p0.toNat, p1.toNat, p2.toNat, p3.toNat, p4.toNat, p5.toNat] ≤ val (2 ^ 64) [t184.val.toNat, t189.val.toNat, t194.val.toNat, t199.val.toNat, t204.val.toNat, t207.val.toNat] := by
+    simp only [val_cons, val_nil]
+    clear * - c5 c4 c3 c2 c1 ir0 ip0 ir1 ip1 ir2 ip2 ir3 ip3 ir4 ip4 ir5 ip5
+    omega
+  have hs := sub6_val ht225 ht226 ht227 ht228 ht229 ht230
+  simp only [Bool.not_true, Bool.toNat_false, Nat.add_zero] at hs
+  have hres := X86.mont_result hR2 hRe (Or.inr (sub_no_borrow hs hle (X86.val6_lt t225.val t226.val t227.val t228.val t229.val t230.val)))
+  have hq := mont_tail_hi1 s pr pt pp inv hr ht hp hstk hrs hts hps (t73 := t73) (t106 := t106) (t139 := t139) (t172 := t172) (t175 := t175) (t184 := t184) (t189 := t189) (t194 := t194) (t198 := t198) (t199 := t199) (t204 := t204) (t205 := t205) (t207 := t207) (t225 := t225) (t226 := t226) (t227 := t227) (t228 := t228) (t229 := t229) (t230 := t230) (p0 := p0) (p1 := p1) (p2 := p2) (p3 := p3) (p4 := p4) (p5 := p5) (l176 := l176) (l200 := l200) ht208 ht211 ht214 ht217 ht220 ht225 ht226 ht227 ht228 ht229 ht230 hb209 hb210 hb212 hb213 hb215 hb216 hb218 hb219 hb221
+  obtain ⟨rr0, rr1, rr2, rr3, rr4, rr5⟩ := hr.r6
+  obtain ⟨⟨alrr0, alrr1, alrr2, alrr3, alrr4, alrr5⟩, frr1, frr2, frr3, frr4, frr5⟩ := hr.addr6
+  have room4 := (hstk.f4 (by omega)).1
+  replace hrs := Hide.mk (And.intro room4 hrs)
+  simp only [OffStack] at hrs
+  refine ⟨_, hq, ⟨rfl, rfl, rfl, rfl, rfl, rfl, rfl, rfl, rfl, rfl, rfl, rfl, rfl, rfl, rfl⟩, ?_, ?_, ?_⟩
+  · simp only; a64_mem; exact hres.1
+  · simp only; a64_mem; exact hres.2
+  · intro k hk1 hk2
+    simp (disch := (clear * - hk1 hk2 room4; omega)) only [setMem_ne]
+
+set_option maxHeartbeats 1600000 in
 theorem mont_tail_lo1 (s : State) (pr pt pp inv : Word)
     (hr : Buf s pr 6 true) (ht : Buf s pt 12 false) (hp : Buf s pp 6 false)
     (hstk : Stack s 4) (hrs : OffStack s 4 pr 6) (hts : OffStack s 4 pt 12) (hps : OffStack s 4 pp 6) {p0 p1 p2 p3 p4 p5 l176 l200 : Word} {t73 t106 t139 t172 t175 t184 t189 t194 t198 t199 t204 t205 t207 t220 : ArithRes}
@@ -666,6 +1053,51 @@ theorem mont_tail_lo1 (s : State) (pr pt pp inv : Word)
   simp only [OffStack] at hrs hts hps
   clear ht hp hr hstk
   a64_sym [← ht208, ← ht211, ← ht214, ← ht217, ← ht220, hb209, hb210, hb212, hb213, hb215, hb216, hb218, hb219, hb221, hb222]
+
+set_option maxHeartbeats 1600000 in
+set_option exponentiation.threshold 800 in
+theorem mont_end_lo1 (s : State) (pr pt pp inv : Word) {p0 p1 p2 p3 p4 p5 l176 l200 : Word} {t73 t106 t139 t172 t175 t184 t189 t194 t198 t199 t204 t205 t207 t220 : ArithRes} {T U : Nat}
+    (hr : Buf s pr 6 true) (ht : Buf s pt 12 false) (hp : Buf s pp 6 false)
+    (hstk : Stack s 4) (hrs : OffStack s 4 pr 6) (hts : OffStack s 4 pt 12) (hps : OffStack s 4 pp 6)
+    (ht208 : t208 = addWithCarry t207.val (~~~p5) true) (ht211 : t211 = addWithCarry t204.val (~~~p4) true)
+    (ht214 : t214 = addWithCarry t199.val (~~~p3) true) (ht217 : t217 = addWithCarry t194.val (~~~p2) true)
+    (ht220 : t220 = addWithCarry t189.val (~~~p1) true) (hb209 : (t208.c && !t208.z) = false) (hb210 : (!t208.c) = false)
+    (hb212 : (t211.c && !t211.z) = false) (hb213 : (!t211.c) = false) (hb215 : (t214.c && !t214.z) = false)
+    (hb216 : (!t214.c) = false) (hb218 : (t217.c && !t217.z) = false) (hb219 : (!t217.c) = false)
+    (hb221 : (t220.c && !t220.z) = false) (hb222 : (!t220.c) = true)
+    (hR2 : val (2 ^ 64) [t184.val.toNat, t189.val.toNat, t194.val.toNat, t199.val.toNat, t204.val.toNat, t207.val.toNat] < 2 * val (2 ^ 64) [p0.toNat, p1.toNat, p2.toNat, p3.toNat, p4.toNat, p5.toNat])
+    (hRe : 2 ^ 384 * val (2 ^ 64) [t184.val.toNat, t189.val.toNat, t194.val.toNat, t199.val.toNat, t204.val.toNat, t207.val.toNat] = T + U * val (2 ^ 64) [p0.toNat, p1.toNat, p2.toNat, p3.toNat, p4.toNat, p5.toNat]) :
+    ∃ s', run embedded_pairing_core_arch_aarch64_fpbase_384_montgomery_reduce ({ x0 := pr, x1 := l176, x2 := t175.val, x3 := inv, x4 := t73.val, x5 := t106.val, x6 := t139.val, x7 := t172.val, x8 := s.x8, x9 := t205.val, x10 := t184.val, x11 := t189.val, x12 := t194.val, x13 := t199.val, x14 := t204.val, x15 := t207.val, x16 := s.x16, x17 := s.x17, x18 := s.x18, x19 := p0, x20 := p1, x21 := p2, x22 := p3, x23 := p4, x24 := p5, x25 := t198.val, x26 := l200, x27 := s.x27, x28 := s.x28, x29 := s.x29, x30 := s.x30, sp := s.sp - 16#64 - 16#64 - 16#64 - 16#64, nf := some t207.n, zf := some t207.z, cf := some t207.c, vf := some t207.v, mem := setMem (setMem (setMem (setMem (setMem (setMem (setMem (setMem (s.mem) (s.sp.toNat - 16) s.x19) (s.sp.toNat - 16 + 8) s.x20) (s.sp.toNat - 16 - 16) s.x21) (s.sp.toNat - 16 - 16 + 8) s.x22) (s.sp.toNat - 16 - 16 - 16) s.x23) (s.sp.toNat - 16 - 16 - 16 + 8) s.x24) (s.sp.toNat - 16 - 16 - 16 - 16) s.x25) (s.sp.toNat - 16 - 16 - 16 - 16 + 8) s.x26, readable := s.readable, writable := s.writable, pc := 208, status := .running } : State) 23 = s' ∧ Returned s s' ∧
+      val (2 ^ 64) [(s'.mem pr.toNat).toNat, (s'.mem (pr.toNat + 8)).toNat, (s'.mem (pr.toNat + 16)).toNat, (s'.mem (pr.toNat + 24)).toNat, (s'.mem (pr.toNat + 32)).toNat, (s'.mem (pr.toNat + 40)).toNat] < val (2 ^ 64) [p0.toNat, p1.toNat, p2.toNat, p3.toNat, p4.toNat, p5.toNat] ∧
+      (val (2 ^ 64) [(s'.mem pr.toNat).toNat, (s'.mem (pr.toNat + 8)).toNat, (s'.mem (pr.toNat + 16)).toNat, (s'.mem (pr.toNat + 24)).toNat, (s'.mem (pr.toNat + 32)).toNat, (s'.mem (pr.toNat + 40)).toNat] * 2 ^ 384) % val (2 ^ 64) [p0.toNat, p1.toNat, p2.toNat, p3.toNat, p4.toNat, p5.toNat] = T % val (2 ^ 64) [p0.toNat, p1.toNat, p2.toNat, p3.toNat, p4.toNat, p5.toNat] ∧
+      (∀ k, ¬(pr.toNat ≤ k ∧ k < pr.toNat + 48) → ¬(s.sp.toNat - 64 ≤ k ∧ k < s.sp.toNat) → s'.mem k = s.mem k) := by
+  have ir0 := (t184.val).isLt; have ip0 := (p0).isLt
+  have ir1 := (t189.val).isLt; have ip1 := (p1).isLt
+  have ir2 := (t194.val).isLt; have ip2 := (p2).isLt
+  have ir3 := (t199.val).isLt; have ip3 := (p3).isLt
+  have ir4 := (t204.val).isLt; have ip4 := (p4).isLt
+  have ir5 := (t207.val).isLt; have ip5 := (p5).isLt
+  have c5 := cmp_eq ht208 hb209 hb210
+  have c4 := cmp_eq ht211 hb212 hb213
+  have c3 := cmp_eq ht214 hb215 hb216
+  have c2 := cmp_eq ht217 hb218 hb219
+  have c1 := cmp_lo ht220 hb222
+  have hlt : val (2 ^ 64) [t184.val.toNat, t189.val.toNat, t194.val.toNat, t199.val.toNat, t204.val.toNat, t207.val.toNat] < val (2 ^ 64) [p0.toNat, p1.toNat, p2.toNat, p3.toNat, p4.toNat, p5.toNat] := by
+    simp only [val_cons, val_nil]
+    clear * - c5 c4 c3 c2 c1 ir0 ip0 ir1 ip1 ir2 ip2 ir3 ip3 ir4 ip4 ir5 ip5
+    omega
+  have hres := X86.mont_result hR2 hRe (Or.inl ⟨rfl, hlt⟩)
+  have hq := mont_tail_lo1 s pr pt pp inv hr ht hp hstk hrs hts hps (t73 := t73) (t106 := t106) (t139 := t139) (t172 := t172) (t175 := t175) (t184 := t184) (t189 := t189) (t194 := t194) (t198 := t198) (t199 := t199) (t204 := t204) (t205 := t205) (t207 := t207) (t220 := t220) (p0 := p0) (p1 := p1) (p2 := p2) (p3 := p3) (p4 := p4) (p5 := p5) (l176 := l176) (l200 := l200) ht208 ht211 ht214 ht217 ht220 hb209 hb210 hb212 hb213 hb215 hb216 hb218 hb219 hb221 hb222
+  obtain ⟨rr0, rr1, rr2, rr3, rr4, rr5⟩ := hr.r6
+  obtain ⟨⟨alrr0, alrr1, alrr2, alrr3, alrr4, alrr5⟩, frr1, frr2, frr3, frr4, frr5⟩ := hr.addr6
+  have room4 := (hstk.f4 (by omega)).1
+  replace hrs := Hide.mk (And.intro room4 hrs)
+  simp only [OffStack] at hrs
+  refine ⟨_, hq, ⟨rfl, rfl, rfl, rfl, rfl, rfl, rfl, rfl, rfl, rfl, rfl, rfl, rfl, rfl, rfl⟩, ?_, ?_, ?_⟩
+  · simp only; a64_mem; exact hres.1
+  · simp only; a64_mem; exact hres.2
+  · intro k hk1 hk2
+    simp (disch := (clear * - hk1 hk2 room4; omega)) only [setMem_ne]
 
 set_option maxHeartbeats 1600000 in
 theorem mont_tail_lo0 (s : State) (pr pt pp inv : Word)
@@ -699,21 +1131,68 @@ theorem mont_tail_lo0 (s : State) (pr pt pp inv : Word)
   a64_sym [← ht208, ← ht211, ← ht214, ← ht217, ← ht220, ← ht223, hb209, hb210, hb212, hb213, hb215, hb216, hb218, hb219, hb221, hb222, hb224]
 
 set_option maxHeartbeats 1600000 in
-theorem mont_tail_hs0 (s : State) (pr pt pp inv : Word)
+set_option exponentiation.threshold 800 in
+theorem mont_end_lo0 (s : State) (pr pt pp inv : Word) {p0 p1 p2 p3 p4 p5 l176 l200 : Word} {t73 t106 t139 t172 t175 t184 t189 t194 t198 t199 t204 t205 t207 t223 : ArithRes} {T U : Nat}
     (hr : Buf s pr 6 true) (ht : Buf s pt 12 false) (hp : Buf s pp 6 false)
-    (hstk : Stack s 4) (hrs : OffStack s 4 pr 6) (hts : OffStack s 4 pt 12) (hps : OffStack s 4 pp 6) {p0 p1 p2 p3 p4 p5 l176 l200 : Word} {t73 t106 t139 t172 t175 t184 t189 t194 t198 t199 t204 t205 t207 t223 t226 t227 t228 t229 t230 : ArithRes}
+    (hstk : Stack s 4) (hrs : OffStack s 4 pr 6) (hts : OffStack s 4 pt 12) (hps : OffStack s 4 pp 6)
     (ht208 : t208 = addWithCarry t207.val (~~~p5) true) (ht211 : t211 = addWithCarry t204.val (~~~p4) true)
     (ht214 : t214 = addWithCarry t199.val (~~~p3) true) (ht217 : t217 = addWithCarry t194.val (~~~p2) true)
     (ht220 : t220 = addWithCarry t189.val (~~~p1) true) (ht223 : t223 = addWithCarry t184.val (~~~p0) true)
-    (ht226 : t226 = addWithCarry t189.val (~~~p1) t223.c) (ht227 : t227 = addWithCarry t194.val (~~~p2) t226.c)
-    (ht228 : t228 = addWithCarry t199.val (~~~p3) t227.c) (ht229 : t229 = addWithCarry t204.val (~~~p4) t228.c)
-    (ht230 : t230 = addWithCarry t207.val (~~~p5) t229.c) (hb209 : (t208.c && !t208.z) = false)
+    (hb209 : (t208.c && !t208.z) = false) (hb210 : (!t208.c) = false) (hb212 : (t211.c && !t211.z) = false)
+    (hb213 : (!t211.c) = false) (hb215 : (t214.c && !t214.z) = false) (hb216 : (!t214.c) = false)
+    (hb218 : (t217.c && !t217.z) = false) (hb219 : (!t217.c) = false) (hb221 : (t220.c && !t220.z) = false)
+    (hb222 : (!t220.c) = false) (hb224 : (!t223.c) = true)
+    (hR2 : val (2 ^ 64) [t184.val.toNat, t189.val.toNat, t194.val.toNat, t199.val.toNat, t204.val.toNat, t207.val.toNat] < 2 * val (2 ^ 64) [p0.toNat, p1.toNat, p2.toNat, p3.toNat, p4.toNat, p5.toNat])
+    (hRe : 2 ^ 384 * val (2 ^ 64) [t184.val.toNat, t189.val.toNat, t194.val.toNat, t199.val.toNat, t204.val.toNat, t207.val.toNat] = T + U * val (2 ^ 64) [p0.toNat, p1.toNat, p2.toNat, p3.toNat, p4.toNat, p5.toNat]) :
+    ∃ s', run embedded_pairing_core_arch_aarch64_fpbase_384_montgomery_reduce ({ x0 := pr, x1 := l176, x2 := t175.val, x3 := inv, x4 := t73.val, x5 := t106.val, x6 := t139.val, x7 := t172.val, x8 := s.x8, x9 := t205.val, x10 := t184.val, x11 := t189.val, x12 := t194.val, x13 := t199.val, x14 := t204.val, x15 := t207.val, x16 := s.x16, x17 := s.x17, x18 := s.x18, x19 := p0, x20 := p1, x21 := p2, x22 := p3, x23 := p4, x24 := p5, x25 := t198.val, x26 := l200, x27 := s.x27, x28 := s.x28, x29 := s.x29, x30 := s.x30, sp := s.sp - 16#64 - 16#64 - 16#64 - 16#64, nf := some t207.n, zf := some t207.z, cf := some t207.c, vf := some t207.v, mem := setMem (setMem (setMem (setMem (setMem (setMem (setMem (setMem (s.mem) (s.sp.toNat - 16) s.x19) (s.sp.toNat - 16 + 8) s.x20) (s.sp.toNat - 16 - 16) s.x21) (s.sp.toNat - 16 - 16 + 8) s.x22) (s.sp.toNat - 16 - 16 - 16) s.x23) (s.sp.toNat - 16 - 16 - 16 + 8) s.x24) (s.sp.toNat - 16 - 16 - 16 - 16) s.x25) (s.sp.toNat - 16 - 16 - 16 - 16 + 8) s.x26, readable := s.readable, writable := s.writable, pc := 208, status := .running } : State) 25 = s' ∧ Returned s s' ∧
+      val (2 ^ 64) [(s'.mem pr.toNat).toNat, (s'.mem (pr.toNat + 8)).toNat, (s'.mem (pr.toNat + 16)).toNat, (s'.mem (pr.toNat + 24)).toNat, (s'.mem (pr.toNat + 32)).toNat, (s'.mem (pr.toNat + 40)).toNat] < val (2 ^ 64) [p0.toNat, p1.toNat, p2.toNat, p3.toNat, p4.toNat, p5.toNat] ∧
+      (val (2 ^ 64) [(s'.mem pr.toNat).toNat, (s'.mem (pr.toNat + 8)).toNat, (s'.mem (pr.toNat + 16)).toNat, (s'.mem (pr.toNat + 24)).toNat, (s'.mem (pr.toNat + 32)).toNat, (s'.mem (pr.toNat + 40)).toNat] * 2 ^ 384) % val (2 ^ 64) [p0.toNat, p1.toNat, p2.toNat, p3.toNat, p4.toNat, p5.toNat] = T % val (2 ^ 64) [p0.toNat, p1.toNat, p2.toNat, p3.toNat, p4.toNat, p5.toNat] ∧
+      (∀ k, ¬(pr.toNat ≤ k ∧ k < pr.toNat + 48) → ¬(s.sp.toNat - 64 ≤ k ∧ k < s.sp.toNat) → s'.mem k = s.mem k) := by
+  have ir0 := (t184.val).isLt; have ip0 := (p0).isLt
+  have ir1 := (t189.val).isLt; have ip1 := (p1).isLt
+  have ir2 := (t194.val).isLt; have ip2 := (p2).isLt
+  have ir3 := (t199.val).isLt; have ip3 := (p3).isLt
+  have ir4 := (t204.val).isLt; have ip4 := (p4).isLt
+  have ir5 := (t207.val).isLt; have ip5 := (p5).isLt
+  have c5 := cmp_eq ht208 hb209 hb210
+  have c4 := cmp_eq ht211 hb212 hb213
+  have c3 := cmp_eq ht214 hb215 hb216
+  have c2 := cmp_eq ht217 hb218 hb219
+  have c1 := cmp_eq ht220 hb221 hb222
+  have c0 := cmp_lo ht223 hb224
+  have hlt : val (2 ^ 64) [t184.val.toNat, t189.val.toNat, t194.val.toNat, t199.val.toNat, t204.val.toNat, t207.val.toNat] < val (2 ^ 64) [p0.toNat, p1.toNat, p2.toNat, p3.toNat, p4.toNat, p5.toNat] := by
+    simp only [val_cons, val_nil]
+    clear * - c5 c4 c3 c2 c1 c0 ir0 ip0 ir1 ip1 ir2 ip2 ir3 ip3 ir4 ip4 ir5 ip5
+    omega
+  have hres := X86.mont_result hR2 hRe (Or.inl ⟨rfl, hlt⟩)
+  have hq := mont_tail_lo0 s pr pt pp inv hr ht hp hstk hrs hts hps (t73 := t73) (t106 := t106) (t139 := t139) (t172 := t172) (t175 := t175) (t184 := t184) (t189 := t189) (t194 := t194) (t198 := t198) (t199 := t199) (t204 := t204) (t205 := t205) (t207 := t207) (t223 := t223) (p0 := p0) (p1 := p1) (p2 := p2) (p3 := p3) (p4 := p4) (p5 := p5) (l176 := l176) (l200 := l200) ht208 ht211 ht214 ht217 ht220 ht223 hb209 hb210 hb212 hb213 hb215 hb216 hb218 hb219 hb221 hb222 hb224
+  obtain ⟨rr0, rr1, rr2, rr3, rr4, rr5⟩ := hr.r6
+  obtain ⟨⟨alrr0, alrr1, alrr2, alrr3, alrr4, alrr5⟩, frr1, frr2, frr3, frr4, frr5⟩ := hr.addr6
+  have room4 := (hstk.f4 (by omega)).1
+  replace hrs := Hide.mk (And.intro room4 hrs)
+  simp only [OffStack] at hrs
+  refine ⟨_, hq, ⟨rfl, rfl, rfl, rfl, rfl, rfl, rfl, rfl, rfl, rfl, rfl, rfl, rfl, rfl, rfl⟩, ?_, ?_, ?_⟩
+  · simp only; a64_mem; exact hres.1
+  · simp only; a64_mem; exact hres.2
+  · intro k hk1 hk2
+    simp (disch := (clear * - hk1 hk2 room4; omega)) only [setMem_ne]
+
+set_option maxHeartbeats 1600000 in
+theorem mont_tail_hs0 (s : State) (pr pt pp inv : Word)
+    (hr : Buf s pr 6 true) (ht : Buf s pt 12 false) (hp : Buf s pp 6 false)
+    (hstk : Stack s 4) (hrs : OffStack s 4 pr 6) (hts : OffStack s 4 pt 12) (hps : OffStack s 4 pp 6) {p0 p1 p2 p3 p4 p5 l176 l200 : Word} {t73 t106 t139 t172 t175 t184 t189 t194 t198 t199 t204 t205 t207 t223 t226e t227e t228e t229e t230e : ArithRes}
+    (ht208 : t208 = addWithCarry t207.val (~~~p5) true) (ht211 : t211 = addWithCarry t204.val (~~~p4) true)
+    (ht214 : t214 = addWithCarry t199.val (~~~p3) true) (ht217 : t217 = addWithCarry t194.val (~~~p2) true)
+    (ht220 : t220 = addWithCarry t189.val (~~~p1) true) (ht223 : t223 = addWithCarry t184.val (~~~p0) true)
+    (ht226e : t226e = addWithCarry t189.val (~~~p1) t223.c) (ht227e : t227e = addWithCarry t194.val (~~~p2) t226e.c)
+    (ht228e : t228e = addWithCarry t199.val (~~~p3) t227e.c) (ht229e : t229e = addWithCarry t204.val (~~~p4) t228e.c)
+    (ht230e : t230e = addWithCarry t207.val (~~~p5) t229e.c) (hb209 : (t208.c && !t208.z) = false)
     (hb210 : (!t208.c) = false) (hb212 : (t211.c && !t211.z) = false) (hb213 : (!t211.c) = false)
     (hb215 : (t214.c && !t214.z) = false) (hb216 : (!t214.c) = false) (hb218 : (t217.c && !t217.z) = false)
     (hb219 : (!t217.c) = false) (hb221 : (t220.c && !t220.z) = false) (hb222 : (!t220.c) = false)
     (hb224 : (!t223.c) = false) :
     run embedded_pairing_core_arch_aarch64_fpbase_384_montgomery_reduce ({ x0 := pr, x1 := l176, x2 := t175.val, x3 := inv, x4 := t73.val, x5 := t106.val, x6 := t139.val, x7 := t172.val, x8 := s.x8, x9 := t205.val, x10 := t184.val, x11 := t189.val, x12 := t194.val, x13 := t199.val, x14 := t204.val, x15 := t207.val, x16 := s.x16, x17 := s.x17, x18 := s.x18, x19 := p0, x20 := p1, x21 := p2, x22 := p3, x23 := p4, x24 := p5, x25 := t198.val, x26 := l200, x27 := s.x27, x28 := s.x28, x29 := s.x29, x30 := s.x30, sp := s.sp - 16#64 - 16#64 - 16#64 - 16#64, nf := some t207.n, zf := some t207.z, cf := some t207.c, vf := some t207.v, mem := setMem (setMem (setMem (setMem (setMem (setMem (setMem (setMem (s.mem) (s.sp.toNat - 16) s.x19) (s.sp.toNat - 16 + 8) s.x20) (s.sp.toNat - 16 - 16) s.x21) (s.sp.toNat - 16 - 16 + 8) s.x22) (s.sp.toNat - 16 - 16 - 16) s.x23) (s.sp.toNat - 16 - 16 - 16 + 8) s.x24) (s.sp.toNat - 16 - 16 - 16 - 16) s.x25) (s.sp.toNat - 16 - 16 - 16 - 16 + 8) s.x26, readable := s.readable, writable := s.writable, pc := 208, status := .running } : State) 31
-      = ({ x0 := pr + 48#64, x1 := l176, x2 := t175.val, x3 := inv, x4 := t73.val, x5 := t106.val, x6 := t139.val, x7 := t172.val, x8 := s.x8, x9 := t205.val, x10 := t223.val, x11 := t226.val, x12 := t227.val, x13 := t228.val, x14 := t229.val, x15 := t230.val, x16 := s.x16, x17 := s.x17, x18 := s.x18, x19 := s.x19, x20 := s.x20, x21 := s.x21, x22 := s.x22, x23 := s.x23, x24 := s.x24, x25 := s.x25, x26 := s.x26, x27 := s.x27, x28 := s.x28, x29 := s.x29, x30 := s.x30, sp := s.sp, nf := some t230.n, zf := some t230.z, cf := some t230.c, vf := some t230.v, mem := setMem (setMem (setMem (setMem (setMem (setMem (setMem (setMem (setMem (setMem (setMem (setMem (setMem (setMem (s.mem) (s.sp.toNat - 16) s.x19) (s.sp.toNat - 16 + 8) s.x20) (s.sp.toNat - 16 - 16) s.x21) (s.sp.toNat - 16 - 16 + 8) s.x22) (s.sp.toNat - 16 - 16 - 16) s.x23) (s.sp.toNat - 16 - 16 - 16 + 8) s.x24) (s.sp.toNat - 16 - 16 - 16 - 16) s.x25) (s.sp.toNat - 16 - 16 - 16 - 16 + 8) s.x26) pr.toNat t223.val) (pr.toNat + 8) t226.val) (pr.toNat + 16) t227.val) (pr.toNat + 24) t228.val) (pr.toNat + 32) t229.val) (pr.toNat + 40) t230.val, readable := s.readable, writable := s.writable, pc := s.x30.toNat, status := .halted } : State) := by
+      = ({ x0 := pr + 48#64, x1 := l176, x2 := t175.val, x3 := inv, x4 := t73.val, x5 := t106.val, x6 := t139.val, x7 := t172.val, x8 := s.x8, x9 := t205.val, x10 := t223.val, x11 := t226e.val, x12 := t227e.val, x13 := t228e.val, x14 := t229e.val, x15 := t230e.val, x16 := s.x16, x17 := s.x17, x18 := s.x18, x19 := s.x19, x20 := s.x20, x21 := s.x21, x22 := s.x22, x23 := s.x23, x24 := s.x24, x25 := s.x25, x26 := s.x26, x27 := s.x27, x28 := s.x28, x29 := s.x29, x30 := s.x30, sp := s.sp, nf := some t230e.n, zf := some t230e.z, cf := some t230e.c, vf := some t230e.v, mem := setMem (setMem (setMem (setMem (setMem (setMem (setMem (setMem (setMem (setMem (setMem (setMem (setMem (setMem (s.mem) (s.sp.toNat - 16) s.x19) (s.sp.toNat - 16 + 8) s.x20) (s.sp.toNat - 16 - 16) s.x21) (s.sp.toNat - 16 - 16 + 8) s.x22) (s.sp.toNat - 16 - 16 - 16) s.x23) (s.sp.toNat - 16 - 16 - 16 + 8) s.x24) (s.sp.toNat - 16 - 16 - 16 - 16) s.x25) (s.sp.toNat - 16 - 16 - 16 - 16 + 8) s.x26) pr.toNat t223.val) (pr.toNat + 8) t226e.val) (pr.toNat + 16) t227e.val) (pr.toNat + 24) t228e.val) (pr.toNat + 32) t229e.val) (pr.toNat + 40) t230e.val, readable := s.readable, writable := s.writable, pc := s.x30.toNat, status := .halted } : State) := by
   obtain ⟨rt0, rt1, rt2, rt3, rt4, rt5, rt6, rt7, rt8, rt9, rt10, rt11⟩ := ht.r12
   obtain ⟨⟨alrt0, alrt1, alrt2, alrt3, alrt4, alrt5, alrt6, alrt7, alrt8, alrt9, alrt10, alrt11⟩, frt1, frt2, frt3, frt4, frt5, frt6, frt7, frt8, frt9, frt10, frt11⟩ := ht.addr12
   obtain ⟨rp0, rp1, rp2, rp3, rp4, rp5⟩ := hp.r6
@@ -730,7 +1209,59 @@ theorem mont_tail_hs0 (s : State) (pr pt pp inv : Word)
   replace hps := Hide.mk (And.intro room4 hps)
   simp only [OffStack] at hrs hts hps
   clear ht hp hr hstk
-  a64_sym [← ht208, ← ht211, ← ht214, ← ht217, ← ht220, ← ht223, ← ht226, ← ht227, ← ht228, ← ht229, ← ht230, hb209, hb210, hb212, hb213, hb215, hb216, hb218, hb219, hb221, hb222, hb224]
+  a64_sym [← ht208, ← ht211, ← ht214, ← ht217, ← ht220, ← ht223, ← ht226e, ← ht227e, ← ht228e, ← ht229e, ← ht230e, hb209, hb210, hb212, hb213, hb215, hb216, hb218, hb219, hb221, hb222, hb224]
+
+set_option maxHeartbeats 1600000 in
+set_option exponentiation.threshold 800 in
+theorem mont_end_hs0 (s : State) (pr pt pp inv : Word) {p0 p1 p2 p3 p4 p5 l176 l200 : Word} {t73 t106 t139 t172 t175 t184 t189 t194 t198 t199 t204 t205 t207 t223 t226e t227e t228e t229e t230e : ArithRes} {T U : Nat}
+    (hr : Buf s pr 6 true) (ht : Buf s pt 12 false) (hp : Buf s pp 6 false)
+    (hstk : Stack s 4) (hrs : OffStack s 4 pr 6) (hts : OffStack s 4 pt 12) (hps : OffStack s 4 pp 6)
+    (ht208 : t208 = addWithCarry t207.val (~~~p5) true) (ht211 : t211 = addWithCarry t204.val (~~~p4) true)
+    (ht214 : t214 = addWithCarry t199.val (~~~p3) true) (ht217 : t217 = addWithCarry t194.val (~~~p2) true)
+    (ht220 : t220 = addWithCarry t189.val (~~~p1) true) (ht223 : t223 = addWithCarry t184.val (~~~p0) true)
+    (ht226e : t226e = addWithCarry t189.val (~~~p1) t223.c) (ht227e : t227e = addWithCarry t194.val (~~~p2) t226e.c)
+    (ht228e : t228e = addWithCarry t199.val (~~~p3) t227e.c) (ht229e : t229e = addWithCarry t204.val (~~~p4) t228e.c)
+    (ht230e : t230e = addWithCarry t207.val (~~~p5) t229e.c) (hb209 : (t208.c && !t208.z) = false)
+    (hb210 : (!t208.c) = false) (hb212 : (t211.c && !t211.z) = false) (hb213 : (!t211.c) = false)
+    (hb215 : (t214.c && !t214.z) = false) (hb216 : (!t214.c) = false) (hb218 : (t217.c && !t217.z) = false)
+    (hb219 : (!t217.c) = false) (hb221 : (t220.c && !t220.z) = false) (hb222 : (!t220.c) = false)
+    (hb224 : (!t223.c) = false)
+    (hR2 : val (2 ^ 64) [t184.val.toNat, t189.val.toNat, t194.val.toNat, t199.val.toNat, t204.val.toNat, t207.val.toNat] < 2 * val (2 ^ 64) [p0.toNat, p1.toNat, p2.toNat, p3.toNat, p4.toNat, p5.toNat])
+    (hRe : 2 ^ 384 * val (2 ^ 64) [t184.val.toNat, t189.val.toNat, t194.val.toNat, t199.val.toNat, t204.val.toNat, t207.val.toNat] = T + U * val (2 ^ 64) [p0.toNat, p1.toNat, p2.toNat, p3.toNat, p4.toNat, p5.toNat]) :
+    ∃ s', run embedded_pairing_core_arch_aarch64_fpbase_384_montgomery_reduce ({ x0 := pr, x1 := l176, x2 := t175.val, x3 := inv, x4 := t73.val, x5 := t106.val, x6 := t139.val, x7 := t172.val, x8 := s.x8, x9 := t205.val, x10 := t184.val, x11 := t189.val, x12 := t194.val, x13 := t199.val, x14 := t204.val, x15 := t207.val, x16 := s.x16, x17 := s.x17, x18 := s.x18, x19 := p0, x20 := p1, x21 := p2, x22 := p3, x23 := p4, x24 := p5, x25 := t198.val, x26 := l200, x27 := s.x27, x28 := s.x28, x29 := s.x29, x30 := s.x30, sp := s.sp - 16#64 - 16#64 - 16#64 - 16#64, nf := some t207.n, zf := some t207.z, cf := some t207.c, vf := some t207.v, mem := setMem (setMem (setMem (setMem (setMem (setMem (setMem (setMem (s.mem) (s.sp.toNat - 16) s.x19) (s.sp.toNat - 16 + 8) s.x20) (s.sp.toNat - 16 - 16) s.x21) (s.sp.toNat - 16 - 16 + 8) s.x22) (s.sp.toNat - 16 - 16 - 16) s.x23) (s.sp.toNat - 16 - 16 - 16 + 8) s.x24) (s.sp.toNat - 16 - 16 - 16 - 16) s.x25) (s.sp.toNat - 16 - 16 - 16 - 16 + 8) s.x26, readable := s.readable, writable := s.writable, pc := 208, status := .running } : State) 31 = s' ∧ Returned s s' ∧
+      val (2 ^ 64) [(s'.mem pr.toNat).toNat, (s'.mem (pr.toNat + 8)).toNat, (s'.mem (pr.toNat + 16)).toNat, (s'.mem (pr.toNat + 24)).toNat, (s'.mem (pr.toNat + 32)).toNat, (s'.mem (pr.toNat + 40)).toNat] < val (2 ^ 64) [p0.toNat, p1.toNat, p2.toNat, p3.toNat, p4.toNat, p5.toNat] ∧
+      (val (2 ^ 64) [(s'.mem pr.toNat).toNat, (s'.mem (pr.toNat + 8)).toNat, (s'.mem (pr.toNat + 16)).toNat, (s'.mem (pr.toNat + 24)).toNat, (s'.mem (pr.toNat + 32)).toNat, (s'.mem (pr.toNat + 40)).toNat] * 2 ^ 384) % val (2 ^ 64) [p0.toNat, p1.toNat, p2.toNat, p3.toNat, p4.toNat, p5.toNat] = T % val (2 ^ 64) [p0.toNat, p1.toNat, p2.toNat, p3.toNat, p4.toNat, p5.toNat] ∧
+      (∀ k, ¬(pr.toNat ≤ k ∧ k < pr.toNat + 48) → ¬(s.sp.toNat - 64 ≤ k ∧ k < s.sp.toNat) → s'.mem k = s.mem k) := by
+  have ir0 := (t184.val).isLt; have ip0 := (p0).isLt
+  have ir1 := (t189.val).isLt; have ip1 := (p1).isLt
+  have ir2 := (t194.val).isLt; have ip2 := (p2).isLt
+  have ir3 := (t199.val).isLt; have ip3 := (p3).isLt
+  have ir4 := (t204.val).isLt; have ip4 := (p4).isLt
+  have ir5 := (t207.val).isLt; have ip5 := (p5).isLt
+  have c5 := cmp_eq ht208 hb209 hb210
+  have c4 := cmp_eq ht211 hb212 hb213
+  have c3 := cmp_eq ht214 hb215 hb216
+  have c2 := cmp_eq ht217 hb218 hb219
+  have c1 := cmp_eq ht220 hb221 hb222
+  have c0 := cmp_hs ht223 hb224
+  have hle : val (2 ^ 64) [p0.toNat, p1.toNat, p2.toNat, p3.toNat, p4.toNat, p5.toNat] ≤ val (2 ^ 64) [t184.val.toNat, t189.val.toNat, t194.val.toNat, t199.val.toNat, t204.val.toNat, t207.val.toNat] := by
+    simp only [val_cons, val_nil]
+    clear * - c5 c4 c3 c2 c1 c0 ir0 ip0 ir1 ip1 ir2 ip2 ir3 ip3 ir4 ip4 ir5 ip5
+    omega
+  have hs := sub6_val ht223 ht226e ht227e ht228e ht229e ht230e
+  simp only [Bool.not_true, Bool.toNat_false, Nat.add_zero] at hs
+  have hres := X86.mont_result hR2 hRe (Or.inr (sub_no_borrow hs hle (X86.val6_lt t223.val t226e.val t227e.val t228e.val t229e.val t230e.val)))
+  have hq := mont_tail_hs0 s pr pt pp inv hr ht hp hstk hrs hts hps (t73 := t73) (t106 := t106) (t139 := t139) (t172 := t172) (t175 := t175) (t184 := t184) (t189 := t189) (t194 := t194) (t198 := t198) (t199 := t199) (t204 := t204) (t205 := t205) (t207 := t207) (t223 := t223) (t226e := t226e) (t227e := t227e) (t228e := t228e) (t229e := t229e) (t230e := t230e) (p0 := p0) (p1 := p1) (p2 := p2) (p3 := p3) (p4 := p4) (p5 := p5) (l176 := l176) (l200 := l200) ht208 ht211 ht214 ht217 ht220 ht223 ht226e ht227e ht228e ht229e ht230e hb209 hb210 hb212 hb213 hb215 hb216 hb218 hb219 hb221 hb222 hb224
+  obtain ⟨rr0, rr1, rr2, rr3, rr4, rr5⟩ := hr.r6
+  obtain ⟨⟨alrr0, alrr1, alrr2, alrr3, alrr4, alrr5⟩, frr1, frr2, frr3, frr4, frr5⟩ := hr.addr6
+  have room4 := (hstk.f4 (by omega)).1
+  replace hrs := Hide.mk (And.intro room4 hrs)
+  simp only [OffStack] at hrs
+  refine ⟨_, hq, ⟨rfl, rfl, rfl, rfl, rfl, rfl, rfl, rfl, rfl, rfl, rfl, rfl, rfl, rfl, rfl⟩, ?_, ?_, ?_⟩
+  · simp only; a64_mem; exact hres.1
+  · simp only; a64_mem; exact hres.2
+  · intro k hk1 hk2
+    simp (disch := (clear * - hk1 hk2 room4; omega)) only [setMem_ne]
 
 
 set_option maxHeartbeats 1600000 in
@@ -975,6 +1506,11 @@ theorem fpbase_384_montgomery_reduce_run (s : State) (pr pt pp inv : Word)
   obtain ⟨t217, ht217⟩ : ∃ x, x = addWithCarry t194.val (~~~p2) true := ⟨_, rfl⟩
   obtain ⟨t220, ht220⟩ : ∃ x, x = addWithCarry t189.val (~~~p1) true := ⟨_, rfl⟩
   obtain ⟨t223, ht223⟩ : ∃ x, x = addWithCarry t184.val (~~~p0) true := ⟨_, rfl⟩
+  obtain ⟨t226e, ht226e⟩ : ∃ x, x = addWithCarry t189.val (~~~p1) t223.c := ⟨_, rfl⟩
+  obtain ⟨t227e, ht227e⟩ : ∃ x, x = addWithCarry t194.val (~~~p2) t226e.c := ⟨_, rfl⟩
+  obtain ⟨t228e, ht228e⟩ : ∃ x, x = addWithCarry t199.val (~~~p3) t227e.c := ⟨_, rfl⟩
+  obtain ⟨t229e, ht229e⟩ : ∃ x, x = addWithCarry t204.val (~~~p4) t228e.c := ⟨_, rfl⟩
+  obtain ⟨t230e, ht230e⟩ : ∃ x, x = addWithCarry t207.val (~~~p5) t229e.c := ⟨_, rfl⟩
   have hq0 := mont_part0 s pr pt pp inv hr ht hp hstk hrs hts hps hst hpc h0 h1 h2 h3 (t16 := t16) (t19 := t19) (t20 := t20) (t21 := t21) (t24 := t24) (t25 := t25) (t26 := t26) (t29 := t29) (t30 := t30) (t31 := t31) (t34 := t34) (t35 := t35) (t36 := t36) (t39 := t39) (t40 := t40) (t41 := t41) (t42 := t42) (t43 := t43) (p0 := p0) (p1 := p1) (p2 := p2) (p3 := p3) (p4 := p4) (p5 := p5) (w0 := w0) (w1 := w1) (w2 := w2) (w3 := w3) (w4 := w4) (w5 := w5) (w6 := w6) (w7 := w7) (w8 := w8) (w9 := w9) (h15 := h15) (h18 := h18) (h23 := h23) (h28 := h28) (h33 := h33) (h38 := h38) (l13 := l13) (l14 := l14) (l17 := l17) (l22 := l22) (l27 := l27) (l32 := l32) (l37 := l37) (w10 := w10) (w11 := w11) hp0 hp1 hp2 hp3 hp4 hp5 hw0 hw1 hw2 hw3 hw4 hw5 hw6 hw7 hw8 hw9 hw10 hw11 hl13 hl14 hh15 ht16 hl17 hh18 ht19 ht20 ht21 hl22 hh23 ht24 ht25 ht26 hl27 hh28 ht29 ht30 ht31 hl32 hh33 ht34 ht35 ht36 hl37 hh38 ht39 ht40 ht41 ht42 ht43
   have hq1 := mont_part1 s pr pt pp inv hr ht hp hstk hrs hts hps (t21 := t21) (t26 := t26) (t31 := t31) (t35 := t35) (t36 := t36) (t41 := t41) (t42 := t42) (t43 := t43) (t47 := t47) (t50 := t50) (t51 := t51) (t52 := t52) (t55 := t55) (t56 := t56) (t57 := t57) (t60 := t60) (t61 := t61) (t62 := t62) (t65 := t65) (t66 := t66) (t67 := t67) (t70 := t70) (t71 := t71) (t72 := t72) (t73 := t73) (t74 := t74) (t75 := t75) (t76 := t76) (p0 := p0) (p1 := p1) (p2 := p2) (p3 := p3) (p4 := p4) (p5 := p5) (w7 := w7) (w8 := w8) (w9 := w9) (h46 := h46) (h49 := h49) (h54 := h54) (h59 := h59) (h64 := h64) (h69 := h69) (l13 := l13) (l37 := l37) (l44 := l44) (l45 := l45) (l48 := l48) (l53 := l53) (l58 := l58) (l63 := l63) (l68 := l68) (w10 := w10) (w11 := w11) hl44 hl45 hh46 ht47 hl48 hh49 ht50 ht51 ht52 hl53 hh54 ht55 ht56 ht57 hl58 hh59 ht60 ht61 ht62 hl63 hh64 ht65 ht66 ht67 hl68 hh69 ht70 ht71 ht72 ht73 ht74 ht75 ht76
   have hq2 := mont_part2 s pr pt pp inv hr ht hp hstk hrs hts hps (t52 := t52) (t57 := t57) (t62 := t62) (t66 := t66) (t67 := t67) (t72 := t72) (t73 := t73) (t75 := t75) (t76 := t76) (t80 := t80) (t83 := t83) (t84 := t84) (t85 := t85) (t88 := t88) (t89 := t89) (t90 := t90) (t93 := t93) (t94 := t94) (t95 := t95) (t98 := t98) (t99 := t99) (t100 := t100) (t103 := t103) (t104 := t104) (t105 := t105) (t106 := t106) (t107 := t107) (t108 := t108) (t109 := t109) (p0 := p0) (p1 := p1) (p2 := p2) (p3 := p3) (p4 := p4) (p5 := p5) (w8 := w8) (w9 := w9) (h79 := h79) (h82 := h82) (h87 := h87) (h92 := h92) (h97 := h97) (l44 := l44) (l68 := l68) (l77 := l77) (l78 := l78) (l81 := l81) (l86 := l86) (l91 := l91) (l96 := l96) (w10 := w10) (w11 := w11) (h102 := h102) (l101 := l101) hl77 hl78 hh79 ht80 hl81 hh82 ht83 ht84 ht85 hl86 hh87 ht88 ht89 ht90 hl91 hh92 ht93 ht94 ht95 hl96 hh97 ht98 ht99 ht100 hl101 hh102 ht103 ht104 ht105 ht106 ht107 ht108 ht109
@@ -1045,235 +1581,62 @@ theorem fpbase_384_montgomery_reduce_run (s : State) (pr pt pp inv : Word)
       simp only [val_cons, val_nil]
       linear_combination f14 + 2 ^ 64 * e17.1 + 2 ^ 128 * e22.1 + 2 ^ 192 * e27.1 + 2 ^ 256 * e32.1 + 2 ^ 320 * e37.1 + 2 ^ 384 * e42.1 + 2 ^ 64 * f45 + 2 ^ 128 * e48.1 + 2 ^ 192 * e53.1 + 2 ^ 256 * e58.1 + 2 ^ 320 * e63.1 + 2 ^ 384 * e68.1 + 2 ^ 448 * e75.1 + 2 ^ 128 * f78 + 2 ^ 192 * e81.1 + 2 ^ 256 * e86.1 + 2 ^ 320 * e91.1 + 2 ^ 384 * e96.1 + 2 ^ 448 * e101.1 + 2 ^ 512 * e108.1 + 2 ^ 192 * f111 + 2 ^ 256 * e114.1 + 2 ^ 320 * e119.1 + 2 ^ 384 * e124.1 + 2 ^ 448 * e129.1 + 2 ^ 512 * e134.1 + 2 ^ 576 * e141.1 + 2 ^ 256 * f144 + 2 ^ 320 * e147.1 + 2 ^ 384 * e152.1 + 2 ^ 448 * e157.1 + 2 ^ 512 * e162.1 + 2 ^ 576 * e167.1 + 2 ^ 640 * e174.1 + 2 ^ 320 * f177 + 2 ^ 384 * e180.1 + 2 ^ 448 * e185.1 + 2 ^ 512 * e190.1 + 2 ^ 576 * e195.1 + 2 ^ 640 * e200.1 + 2 ^ 704 * e207
     exact (X86.mont_finish key (X86.val6_lt l13 l44 l77 l110 l143 l176) hT h2P).2
-  obtain ⟨rr0, rr1, rr2, rr3, rr4, rr5⟩ := hr.r6
-  obtain ⟨⟨alrr0, alrr1, alrr2, alrr3, alrr4, alrr5⟩, frr1, frr2, frr3, frr4, frr5⟩ := hr.addr6
-  have room4 := (hstk.f4 (by omega)).1
-  have hrs' := Hide.mk (And.intro room4 hrs)
-  simp only [OffStack] at hrs'
-  have ir0 := (t184.val).isLt; have ip0 := (p0).isLt
-  have ir1 := (t189.val).isLt; have ip1 := (p1).isLt
-  have ir2 := (t194.val).isLt; have ip2 := (p2).isLt
-  have ir3 := (t199.val).isLt; have ip3 := (p3).isLt
-  have ir4 := (t204.val).isLt; have ip4 := (p4).isLt
-  have ir5 := (t207.val).isLt; have ip5 := (p5).isLt
   cases hb209 : (t208.c && !t208.z) with
   | true =>
-    have c5 := cmp_hi ht208 hb209
-    have hle : val (2 ^ 64) [p0.toNat, p1.toNat, p2.toNat, p3.toNat, p4.toNat, p5.toNat] ≤ val (2 ^ 64) [t184.val.toNat, t189.val.toNat, t194.val.toNat, t199.val.toNat, t204.val.toNat, t207.val.toNat] := by
-      simp only [val_cons, val_nil]
-      clear * - c5 ir0 ip0 ir1 ip1 ir2 ip2 ir3 ip3 ir4 ip4 ir5 ip5
-      omega
-    have hs := sub6_val ht225 ht226 ht227 ht228 ht229 ht230
-    simp only [Bool.not_true, Bool.toNat_false, Nat.add_zero] at hs
-    have hres := X86.mont_result hR2 hRe (Or.inr (sub_no_borrow hs hle (X86.val6_lt t225.val t226.val t227.val t228.val t229.val t230.val)))
-    have hq := mont_tail_hi5 s pr pt pp inv hr ht hp hstk hrs hts hps (t73 := t73) (t106 := t106) (t139 := t139) (t172 := t172) (t175 := t175) (t184 := t184) (t189 := t189) (t194 := t194) (t198 := t198) (t199 := t199) (t204 := t204) (t205 := t205) (t207 := t207) (t225 := t225) (t226 := t226) (t227 := t227) (t228 := t228) (t229 := t229) (t230 := t230) (p0 := p0) (p1 := p1) (p2 := p2) (p3 := p3) (p4 := p4) (p5 := p5) (l176 := l176) (l200 := l200) ht208 ht225 ht226 ht227 ht228 ht229 ht230 hb209
-    refine ⟨_, run_fuel (run_chain hpre hq) rfl 239 (by omega), ⟨rfl, rfl, rfl, rfl, rfl, rfl, rfl, rfl, rfl, rfl, rfl, rfl, rfl, rfl, rfl⟩, ?_, ?_, ?_⟩
-    · simp only; a64_mem; exact hres.1
-    · simp only; a64_mem; exact hres.2
-    · intro k hk1 hk2
-      simp (disch := (clear * - hk1 hk2 room4; omega)) only [setMem_ne]
+    obtain ⟨s', e1, e2, e3, e4, e5⟩ := mont_end_hi5 s pr pt pp inv hr ht hp hstk hrs hts hps (t73 := t73) (t106 := t106) (t139 := t139) (t172 := t172) (t175 := t175) (t184 := t184) (t189 := t189) (t194 := t194) (t198 := t198) (t199 := t199) (t204 := t204) (t205 := t205) (t207 := t207) (t225 := t225) (t226 := t226) (t227 := t227) (t228 := t228) (t229 := t229) (t230 := t230) (p0 := p0) (p1 := p1) (p2 := p2) (p3 := p3) (p4 := p4) (p5 := p5) (l176 := l176) (l200 := l200) ht208 ht225 ht226 ht227 ht228 ht229 ht230 hb209 hR2 hRe
+    exact ⟨s', run_fuel (run_chain hpre e1) e2.halted 239 (by decide), e2, e3, e4, e5⟩
   | false =>
     cases hb210 : (!t208.c) with
     | true =>
-      have c5 := cmp_lo ht208 hb210
-      have hlt : val (2 ^ 64) [t184.val.toNat, t189.val.toNat, t194.val.toNat, t199.val.toNat, t204.val.toNat, t207.val.toNat] < val (2 ^ 64) [p0.toNat, p1.toNat, p2.toNat, p3.toNat, p4.toNat, p5.toNat] := by
-        simp only [val_cons, val_nil]
-        clear * - c5 ir0 ip0 ir1 ip1 ir2 ip2 ir3 ip3 ir4 ip4 ir5 ip5
-        omega
-      have hres := X86.mont_result hR2 hRe (Or.inl ⟨rfl, hlt⟩)
-      have hq := mont_tail_lo5 s pr pt pp inv hr ht hp hstk hrs hts hps (t73 := t73) (t106 := t106) (t139 := t139) (t172 := t172) (t175 := t175) (t184 := t184) (t189 := t189) (t194 := t194) (t198 := t198) (t199 := t199) (t204 := t204) (t205 := t205) (t207 := t207) (t208 := t208) (p0 := p0) (p1 := p1) (p2 := p2) (p3 := p3) (p4 := p4) (p5 := p5) (l176 := l176) (l200 := l200) ht208 hb209 hb210
-      refine ⟨_, run_fuel (run_chain hpre hq) rfl 239 (by omega), ⟨rfl, rfl, rfl, rfl, rfl, rfl, rfl, rfl, rfl, rfl, rfl, rfl, rfl, rfl, rfl⟩, ?_, ?_, ?_⟩
-      · simp only; a64_mem; exact hres.1
-      · simp only; a64_mem; exact hres.2
-      · intro k hk1 hk2
-        simp (disch := (clear * - hk1 hk2 room4; omega)) only [setMem_ne]
+      obtain ⟨s', e1, e2, e3, e4, e5⟩ := mont_end_lo5 s pr pt pp inv hr ht hp hstk hrs hts hps (t73 := t73) (t106 := t106) (t139 := t139) (t172 := t172) (t175 := t175) (t184 := t184) (t189 := t189) (t194 := t194) (t198 := t198) (t199 := t199) (t204 := t204) (t205 := t205) (t207 := t207) (t208 := t208) (p0 := p0) (p1 := p1) (p2 := p2) (p3 := p3) (p4 := p4) (p5 := p5) (l176 := l176) (l200 := l200) ht208 hb209 hb210 hR2 hRe
+      exact ⟨s', run_fuel (run_chain hpre e1) e2.halted 239 (by decide), e2, e3, e4, e5⟩
     | false =>
       cases hb212 : (t211.c && !t211.z) with
       | true =>
-        have c5 := cmp_eq ht208 hb209 hb210
-        have c4 := cmp_hi ht211 hb212
-        have hle : val (2 ^ 64) [p0.toNat, p1.toNat, p2.toNat, p3.toNat, p4.toNat, p5.toNat] ≤ val (2 ^ 64) [t184.val.toNat, t189.val.toNat, t194.val.toNat, t199.val.toNat, t204.val.toNat, t207.val.toNat] := by
-          simp only [val_cons, val_nil]
-          clear * - c5 c4 ir0 ip0 ir1 ip1 ir2 ip2 ir3 ip3 ir4 ip4 ir5 ip5
-          omega
-        have hs := sub6_val ht225 ht226 ht227 ht228 ht229 ht230
-        simp only [Bool.not_true, Bool.toNat_false, Nat.add_zero] at hs
-        have hres := X86.mont_result hR2 hRe (Or.inr (sub_no_borrow hs hle (X86.val6_lt t225.val t226.val t227.val t228.val t229.val t230.val)))
-        have hq := mont_tail_hi4 s pr pt pp inv hr ht hp hstk hrs hts hps (t73 := t73) (t106 := t106) (t139 := t139) (t172 := t172) (t175 := t175) (t184 := t184) (t189 := t189) (t194 := t194) (t198 := t198) (t199 := t199) (t204 := t204) (t205 := t205) (t207 := t207) (t225 := t225) (t226 := t226) (t227 := t227) (t228 := t228) (t229 := t229) (t230 := t230) (p0 := p0) (p1 := p1) (p2 := p2) (p3 := p3) (p4 := p4) (p5 := p5) (l176 := l176) (l200 := l200) ht208 ht211 ht225 ht226 ht227 ht228 ht229 ht230 hb209 hb210 hb212
-        refine ⟨_, run_fuel (run_chain hpre hq) rfl 239 (by omega), ⟨rfl, rfl, rfl, rfl, rfl, rfl, rfl, rfl, rfl, rfl, rfl, rfl, rfl, rfl, rfl⟩, ?_, ?_, ?_⟩
-        · simp only; a64_mem; exact hres.1
-        · simp only; a64_mem; exact hres.2
-        · intro k hk1 hk2
-          simp (disch := (clear * - hk1 hk2 room4; omega)) only [setMem_ne]
+        obtain ⟨s', e1, e2, e3, e4, e5⟩ := mont_end_hi4 s pr pt pp inv hr ht hp hstk hrs hts hps (t73 := t73) (t106 := t106) (t139 := t139) (t172 := t172) (t175 := t175) (t184 := t184) (t189 := t189) (t194 := t194) (t198 := t198) (t199 := t199) (t204 := t204) (t205 := t205) (t207 := t207) (t225 := t225) (t226 := t226) (t227 := t227) (t228 := t228) (t229 := t229) (t230 := t230) (p0 := p0) (p1 := p1) (p2 := p2) (p3 := p3) (p4 := p4) (p5 := p5) (l176 := l176) (l200 := l200) ht208 ht211 ht225 ht226 ht227 ht228 ht229 ht230 hb209 hb210 hb212 hR2 hRe
+        exact ⟨s', run_fuel (run_chain hpre e1) e2.halted 239 (by decide), e2, e3, e4, e5⟩
       | false =>
         cases hb213 : (!t211.c) with
         | true =>
-          have c5 := cmp_eq ht208 hb209 hb210
-          have c4 := cmp_lo ht211 hb213
-          have hlt : val (2 ^ 64) [t184.val.toNat, t189.val.toNat, t194.val.toNat, t199.val.toNat, t204.val.toNat, t207.val.toNat] < val (2 ^ 64) [p0.toNat, p1.toNat, p2.toNat, p3.toNat, p4.toNat, p5.toNat] := by
-            simp only [val_cons, val_nil]
-            clear * - c5 c4 ir0 ip0 ir1 ip1 ir2 ip2 ir3 ip3 ir4 ip4 ir5 ip5
-            omega
-          have hres := X86.mont_result hR2 hRe (Or.inl ⟨rfl, hlt⟩)
-          have hq := mont_tail_lo4 s pr pt pp inv hr ht hp hstk hrs hts hps (t73 := t73) (t106 := t106) (t139 := t139) (t172 := t172) (t175 := t175) (t184 := t184) (t189 := t189) (t194 := t194) (t198 := t198) (t199 := t199) (t204 := t204) (t205 := t205) (t207 := t207) (t211 := t211) (p0 := p0) (p1 := p1) (p2 := p2) (p3 := p3) (p4 := p4) (p5 := p5) (l176 := l176) (l200 := l200) ht208 ht211 hb209 hb210 hb212 hb213
-          refine ⟨_, run_fuel (run_chain hpre hq) rfl 239 (by omega), ⟨rfl, rfl, rfl, rfl, rfl, rfl, rfl, rfl, rfl, rfl, rfl, rfl, rfl, rfl, rfl⟩, ?_, ?_, ?_⟩
-          · simp only; a64_mem; exact hres.1
-          · simp only; a64_mem; exact hres.2
-          · intro k hk1 hk2
-            simp (disch := (clear * - hk1 hk2 room4; omega)) only [setMem_ne]
+          obtain ⟨s', e1, e2, e3, e4, e5⟩ := mont_end_lo4 s pr pt pp inv hr ht hp hstk hrs hts hps (t73 := t73) (t106 := t106) (t139 := t139) (t172 := t172) (t175 := t175) (t184 := t184) (t189 := t189) (t194 := t194) (t198 := t198) (t199 := t199) (t204 := t204) (t205 := t205) (t207 := t207) (t211 := t211) (p0 := p0) (p1 := p1) (p2 := p2) (p3 := p3) (p4 := p4) (p5 := p5) (l176 := l176) (l200 := l200) ht208 ht211 hb209 hb210 hb212 hb213 hR2 hRe
+          exact ⟨s', run_fuel (run_chain hpre e1) e2.halted 239 (by decide), e2, e3, e4, e5⟩
         | false =>
           cases hb215 : (t214.c && !t214.z) with
           | true =>
-            have c5 := cmp_eq ht208 hb209 hb210
-            have c4 := cmp_eq ht211 hb212 hb213
-            have c3 := cmp_hi ht214 hb215
-            have hle : val (2 ^ 64) [p0.toNat, p1.toNat, p2.toNat, p3.toNat, p4.toNat, p5.toNat] ≤ val (2 ^ 64) [t184.val.toNat, t189.val.toNat, t194.val.toNat, t199.val.toNat, t204.val.toNat, t207.val.toNat] := by
-              simp only [val_cons, val_nil]
-              clear * - c5 c4 c3 ir0 ip0 ir1 ip1 ir2 ip2 ir3 ip3 ir4 ip4 ir5 ip5
-              omega
-            have hs := sub6_val ht225 ht226 ht227 ht228 ht229 ht230
-            simp only [Bool.not_true, Bool.toNat_false, Nat.add_zero] at hs
-            have hres := X86.mont_result hR2 hRe (Or.inr (sub_no_borrow hs hle (X86.val6_lt t225.val t226.val t227.val t228.val t229.val t230.val)))
-            have hq := mont_tail_hi3 s pr pt pp inv hr ht hp hstk hrs hts hps (t73 := t73) (t106 := t106) (t139 := t139) (t172 := t172) (t175 := t175) (t184 := t184) (t189 := t189) (t194 := t194) (t198 := t198) (t199 := t199) (t204 := t204) (t205 := t205) (t207 := t207) (t225 := t225) (t226 := t226) (t227 := t227) (t228 := t228) (t229 := t229) (t230 := t230) (p0 := p0) (p1 := p1) (p2 := p2) (p3 := p3) (p4 := p4) (p5 := p5) (l176 := l176) (l200 := l200) ht208 ht211 ht214 ht225 ht226 ht227 ht228 ht229 ht230 hb209 hb210 hb212 hb213 hb215
-            refine ⟨_, run_fuel (run_chain hpre hq) rfl 239 (by omega), ⟨rfl, rfl, rfl, rfl, rfl, rfl, rfl, rfl, rfl, rfl, rfl, rfl, rfl, rfl, rfl⟩, ?_, ?_, ?_⟩
-            · simp only; a64_mem; exact hres.1
-            · simp only; a64_mem; exact hres.2
-            · intro k hk1 hk2
-              simp (disch := (clear * - hk1 hk2 room4; omega)) only [setMem_ne]
+            obtain ⟨s', e1, e2, e3, e4, e5⟩ := mont_end_hi3 s pr pt pp inv hr ht hp hstk hrs hts hps (t73 := t73) (t106 := t106) (t139 := t139) (t172 := t172) (t175 := t175) (t184 := t184) (t189 := t189) (t194 := t194) (t198 := t198) (t199 := t199) (t204 := t204) (t205 := t205) (t207 := t207) (t225 := t225) (t226 := t226) (t227 := t227) (t228 := t228) (t229 := t229) (t230 := t230) (p0 := p0) (p1 := p1) (p2 := p2) (p3 := p3) (p4 := p4) (p5 := p5) (l176 := l176) (l200 := l200) ht208 ht211 ht214 ht225 ht226 ht227 ht228 ht229 ht230 hb209 hb210 hb212 hb213 hb215 hR2 hRe
+            exact ⟨s', run_fuel (run_chain hpre e1) e2.halted 239 (by decide), e2, e3, e4, e5⟩
           | false =>
             cases hb216 : (!t214.c) with
             | true =>
-              have c5 := cmp_eq ht208 hb209 hb210
-              have c4 := cmp_eq ht211 hb212 hb213
-              have c3 := cmp_lo ht214 hb216
-              have hlt : val (2 ^ 64) [t184.val.toNat, t189.val.toNat, t194.val.toNat, t199.val.toNat, t204.val.toNat, t207.val.toNat] < val (2 ^ 64) [p0.toNat, p1.toNat, p2.toNat, p3.toNat, p4.toNat, p5.toNat] := by
-                simp only [val_cons, val_nil]
-                clear * - c5 c4 c3 ir0 ip0 ir1 ip1 ir2 ip2 ir3 ip3 ir4 ip4 ir5 ip5
-                omega
-              have hres := X86.mont_result hR2 hRe (Or.inl ⟨rfl, hlt⟩)
-              have hq := mont_tail_lo3 s pr pt pp inv hr ht hp hstk hrs hts hps (t73 := t73) (t106 := t106) (t139 := t139) (t172 := t172) (t175 := t175) (t184 := t184) (t189 := t189) (t194 := t194) (t198 := t198) (t199 := t199) (t204 := t204) (t205 := t205) (t207 := t207) (t214 := t214) (p0 := p0) (p1 := p1) (p2 := p2) (p3 := p3) (p4 := p4) (p5 := p5) (l176 := l176) (l200 := l200) ht208 ht211 ht214 hb209 hb210 hb212 hb213 hb215 hb216
-              refine ⟨_, run_fuel (run_chain hpre hq) rfl 239 (by omega), ⟨rfl, rfl, rfl, rfl, rfl, rfl, rfl, rfl, rfl, rfl, rfl, rfl, rfl, rfl, rfl⟩, ?_, ?_, ?_⟩
-              · simp only; a64_mem; exact hres.1
-              · simp only; a64_mem; exact hres.2
-              · intro k hk1 hk2
-                simp (disch := (clear * - hk1 hk2 room4; omega)) only [setMem_ne]
+              obtain ⟨s', e1, e2, e3, e4, e5⟩ := mont_end_lo3 s pr pt pp inv hr ht hp hstk hrs hts hps (t73 := t73) (t106 := t106) (t139 := t139) (t172 := t172) (t175 := t175) (t184 := t184) (t189 := t189) (t194 := t194) (t198 := t198) (t199 := t199) (t204 := t204) (t205 := t205) (t207 := t207) (t214 := t214) (p0 := p0) (p1 := p1) (p2 := p2) (p3 := p3) (p4 := p4) (p5 := p5) (l176 := l176) (l200 := l200) ht208 ht211 ht214 hb209 hb210 hb212 hb213 hb215 hb216 hR2 hRe
+              exact ⟨s', run_fuel (run_chain hpre e1) e2.halted 239 (by decide), e2, e3, e4, e5⟩
             | false =>
               cases hb218 : (t217.c && !t217.z) with
               | true =>
-                have c5 := cmp_eq ht208 hb209 hb210
-                have c4 := cmp_eq ht211 hb212 hb213
-                have c3 := cmp_eq ht214 hb215 hb216
-                have c2 := cmp_hi ht217 hb218
-                have hle : val (2 ^ 64) [p0.toNat, p1.toNat, p2.toNat, p3.toNat, p4.toNat, p5.toNat] ≤ val (2 ^ 64) [t184.val.toNat, t189.val.toNat, t194.val.toNat, t199.val.toNat, t204.val.toNat, t207.val.toNat] := by
-                  simp only [val_cons, val_nil]
-                  clear * - c5 c4 c3 c2 ir0 ip0 ir1 ip1 ir2 ip2 ir3 ip3 ir4 ip4 ir5 ip5
-                  omega
-                have hs := sub6_val ht225 ht226 ht227 ht228 ht229 ht230
-                simp only [Bool.not_true, Bool.toNat_false, Nat.add_zero] at hs
-                have hres := X86.mont_result hR2 hRe (Or.inr (sub_no_borrow hs hle (X86.val6_lt t225.val t226.val t227.val t228.val t229.val t230.val)))
-                have hq := mont_tail_hi2 s pr pt pp inv hr ht hp hstk hrs hts hps (t73 := t73) (t106 := t106) (t139 := t139) (t172 := t172) (t175 := t175) (t184 := t184) (t189 := t189) (t194 := t194) (t198 := t198) (t199 := t199) (t204 := t204) (t205 := t205) (t207 := t207) (t225 := t225) (t226 := t226) (t227 := t227) (t228 := t228) (t229 := t229) (t230 := t230) (p0 := p0) (p1 := p1) (p2 := p2) (p3 := p3) (p4 := p4) (p5 := p5) (l176 := l176) (l200 := l200) ht208 ht211 ht214 ht217 ht225 ht226 ht227 ht228 ht229 ht230 hb209 hb210 hb212 hb213 hb215 hb216 hb218
-                refine ⟨_, run_fuel (run_chain hpre hq) rfl 239 (by omega), ⟨rfl, rfl, rfl, rfl, rfl, rfl, rfl, rfl, rfl, rfl, rfl, rfl, rfl, rfl, rfl⟩, ?_, ?_, ?_⟩
-                · simp only; a64_mem; exact hres.1
-                · simp only; a64_mem; exact hres.2
-                · intro k hk1 hk2
-                  simp (disch := (clear * - hk1 hk2 room4; omega)) only [setMem_ne]
+                obtain ⟨s', e1, e2, e3, e4, e5⟩ := mont_end_hi2 s pr pt pp inv hr ht hp hstk hrs hts hps (t73 := t73) (t106 := t106) (t139 := t139) (t172 := t172) (t175 := t175) (t184 := t184) (t189 := t189) (t194 := t194) (t198 := t198) (t199 := t199) (t204 := t204) (t205 := t205) (t207 := t207) (t225 := t225) (t226 := t226) (t227 := t227) (t228 := t228) (t229 := t229) (t230 := t230) (p0 := p0) (p1 := p1) (p2 := p2) (p3 := p3) (p4 := p4) (p5 := p5) (l176 := l176) (l200 := l200) ht208 ht211 ht214 ht217 ht225 ht226 ht227 ht228 ht229 ht230 hb209 hb210 hb212 hb213 hb215 hb216 hb218 hR2 hRe
+                exact ⟨s', run_fuel (run_chain hpre e1) e2.halted 239 (by decide), e2, e3, e4, e5⟩
               | false =>
                 cases hb219 : (!t217.c) with
                 | true =>
-                  have c5 := cmp_eq ht208 hb209 hb210
-                  have c4 := cmp_eq ht211 hb212 hb213
-                  have c3 := cmp_eq ht214 hb215 hb216
-                  have c2 := cmp_lo ht217 hb219
-                  have hlt : val (2 ^ 64) [t184.val.toNat, t189.val.toNat, t194.val.toNat, t199.val.toNat, t204.val.toNat, t207.val.toNat] < val (2 ^ 64) [p0.toNat, p1.toNat, p2.toNat, p3.toNat, p4.toNat, p5.toNat] := by
-                    simp only [val_cons, val_nil]
-                    clear * - c5 c4 c3 c2 ir0 ip0 ir1 ip1 ir2 ip2 ir3 ip3 ir4 ip4 ir5 ip5
-                    omega
-                  have hres := X86.mont_result hR2 hRe (Or.inl ⟨rfl, hlt⟩)
-                  have hq := mont_tail_lo2 s pr pt pp inv hr ht hp hstk hrs hts hps (t73 := t73) (t106 := t106) (t139 := t139) (t172 := t172) (t175 := t175) (t184 := t184) (t189 := t189) (t194 := t194) (t198 := t198) (t199 := t199) (t204 := t204) (t205 := t205) (t207 := t207) (t217 := t217) (p0 := p0) (p1 := p1) (p2 := p2) (p3 := p3) (p4 := p4) (p5 := p5) (l176 := l176) (l200 := l200) ht208 ht211 ht214 ht217 hb209 hb210 hb212 hb213 hb215 hb216 hb218 hb219
-                  refine ⟨_, run_fuel (run_chain hpre hq) rfl 239 (by omega), ⟨rfl, rfl, rfl, rfl, rfl, rfl, rfl, rfl, rfl, rfl, rfl, rfl, rfl, rfl, rfl⟩, ?_, ?_, ?_⟩
-                  · simp only; a64_mem; exact hres.1
-                  · simp only; a64_mem; exact hres.2
-                  · intro k hk1 hk2
-                    simp (disch := (clear * - hk1 hk2 room4; omega)) only [setMem_ne]
+                  obtain ⟨s', e1, e2, e3, e4, e5⟩ := mont_end_lo2 s pr pt pp inv hr ht hp hstk hrs hts hps (t73 := t73) (t106 := t106) (t139 := t139) (t172 := t172) (t175 := t175) (t184 := t184) (t189 := t189) (t194 := t194) (t198 := t198) (t199 := t199) (t204 := t204) (t205 := t205) (t207 := t207) (t217 := t217) (p0 := p0) (p1 := p1) (p2 := p2) (p3 := p3) (p4 := p4) (p5 := p5) (l176 := l176) (l200 := l200) ht208 ht211 ht214 ht217 hb209 hb210 hb212 hb213 hb215 hb216 hb218 hb219 hR2 hRe
+                  exact ⟨s', run_fuel (run_chain hpre e1) e2.halted 239 (by decide), e2, e3, e4, e5⟩
                 | false =>
                   cases hb221 : (t220.c && !t220.z) with
                   | true =>
-                    have c5 := cmp_eq ht208 hb209 hb210
-                    have c4 := cmp_eq ht211 hb212 hb213
-                    have c3 := cmp_eq ht214 hb215 hb216
-                    have c2 := cmp_eq ht217 hb218 hb219
-                    have c1 := cmp_hi ht220 hb221
-                    have hle : val (2 ^ 64) [p0.toNat, p1.toNat, p2.toNat, p3.toNat, p4.toNat, p5.toNat] ≤ val (2 ^ 64) [t184.val.toNat, t189.val.toNat, t194.val.toNat, t199.val.toNat, t204.val.toNat, t207.val.toNat] := by
-                      simp only [val_cons, val_nil]
-                      clear * - c5 c4 c3 c2 c1 ir0 ip0 ir1 ip1 ir2 ip2 ir3 ip3 ir4 ip4 ir5 ip5
-                      omega
-                    have hs := sub6_val ht225 ht226 ht227 ht228 ht229 ht230
-                    simp only [Bool.not_true, Bool.toNat_false, Nat.add_zero] at hs
-                    have hres := X86.mont_result hR2 hRe (Or.inr (sub_no_borrow hs hle (X86.val6_lt t225.val t226.val t227.val t228.val t229.val t230.val)))
-                    have hq := mont_tail_hi1 s pr pt pp inv hr ht hp hstk hrs hts hps (t73 := t73) (t106 := t106) (t139 := t139) (t172 := t172) (t175 := t175) (t184 := t184) (t189 := t189) (t194 := t194) (t198 := t198) (t199 := t199) (t204 := t204) (t205 := t205) (t207 := t207) (t225 := t225) (t226 := t226) (t227 := t227) (t228 := t228) (t229 := t229) (t230 := t230) (p0 := p0) (p1 := p1) (p2 := p2) (p3 := p3) (p4 := p4) (p5 := p5) (l176 := l176) (l200 := l200) ht208 ht211 ht214 ht217 ht220 ht225 ht226 ht227 ht228 ht229 ht230 hb209 hb210 hb212 hb213 hb215 hb216 hb218 hb219 hb221
-                    refine ⟨_, run_fuel (run_chain hpre hq) rfl 239 (by omega), ⟨rfl, rfl, rfl, rfl, rfl, rfl, rfl, rfl, rfl, rfl, rfl, rfl, rfl, rfl, rfl⟩, ?_, ?_, ?_⟩
-                    · simp only; a64_mem; exact hres.1
-                    · simp only; a64_mem; exact hres.2
-                    · intro k hk1 hk2
-                      simp (disch := (clear * - hk1 hk2 room4; omega)) only [setMem_ne]
+                    obtain ⟨s', e1, e2, e3, e4, e5⟩ := mont_end_hi1 s pr pt pp inv hr ht hp hstk hrs hts hps (t73 := t73) (t106 := t106) (t139 := t139) (t172 := t172) (t175 := t175) (t184 := t184) (t189 := t189) (t194 := t194) (t198 := t198) (t199 := t199) (t204 := t204) (t205 := t205) (t207 := t207) (t225 := t225) (t226 := t226) (t227 := t227) (t228 := t228) (t229 := t229) (t230 := t230) (p0 := p0) (p1 := p1) (p2 := p2) (p3 := p3) (p4 := p4) (p5 := p5) (l176 := l176) (l200 := l200) ht208 ht211 ht214 ht217 ht220 ht225 ht226 ht227 ht228 ht229 ht230 hb209 hb210 hb212 hb213 hb215 hb216 hb218 hb219 hb221 hR2 hRe
+                    exact ⟨s', run_fuel (run_chain hpre e1) e2.halted 239 (by decide), e2, e3, e4, e5⟩
                   | false =>
                     cases hb222 : (!t220.c) with
                     | true =>
-                      have c5 := cmp_eq ht208 hb209 hb210
-                      have c4 := cmp_eq ht211 hb212 hb213
-                      have c3 := cmp_eq ht214 hb215 hb216
-                      have c2 := cmp_eq ht217 hb218 hb219
-                      have c1 := cmp_lo ht220 hb222
-                      have hlt : val (2 ^ 64) [t184.val.toNat, t189.val.toNat, t194.val.toNat, t199.val.toNat, t204.val.toNat, t207.val.toNat] < val (2 ^ 64) [p0.toNat, p1.toNat, p2.toNat, p3.toNat, p4.toNat, p5.toNat] := by
-                        simp only [val_cons, val_nil]
-                        clear * - c5 c4 c3 c2 c1 ir0 ip0 ir1 ip1 ir2 ip2 ir3 ip3 ir4 ip4 ir5 ip5
-                        omega
-                      have hres := X86.mont_result hR2 hRe (Or.inl ⟨rfl, hlt⟩)
-                      have hq := mont_tail_lo1 s pr pt pp inv hr ht hp hstk hrs hts hps (t73 := t73) (t106 := t106) (t139 := t139) (t172 := t172) (t175 := t175) (t184 := t184) (t189 := t189) (t194 := t194) (t198 := t198) (t199 := t199) (t204 := t204) (t205 := t205) (t207 := t207) (t220 := t220) (p0 := p0) (p1 := p1) (p2 := p2) (p3 := p3) (p4 := p4) (p5 := p5) (l176 := l176) (l200 := l200) ht208 ht211 ht214 ht217 ht220 hb209 hb210 hb212 hb213 hb215 hb216 hb218 hb219 hb221 hb222
-                      refine ⟨_, run_fuel (run_chain hpre hq) rfl 239 (by omega), ⟨rfl, rfl, rfl, rfl, rfl, rfl, rfl, rfl, rfl, rfl, rfl, rfl, rfl, rfl, rfl⟩, ?_, ?_, ?_⟩
-                      · simp only; a64_mem; exact hres.1
-                      · simp only; a64_mem; exact hres.2
-                      · intro k hk1 hk2
-                        simp (disch := (clear * - hk1 hk2 room4; omega)) only [setMem_ne]
+                      obtain ⟨s', e1, e2, e3, e4, e5⟩ := mont_end_lo1 s pr pt pp inv hr ht hp hstk hrs hts hps (t73 := t73) (t106 := t106) (t139 := t139) (t172 := t172) (t175 := t175) (t184 := t184) (t189 := t189) (t194 := t194) (t198 := t198) (t199 := t199) (t204 := t204) (t205 := t205) (t207 := t207) (t220 := t220) (p0 := p0) (p1 := p1) (p2 := p2) (p3 := p3) (p4 := p4) (p5 := p5) (l176 := l176) (l200 := l200) ht208 ht211 ht214 ht217 ht220 hb209 hb210 hb212 hb213 hb215 hb216 hb218 hb219 hb221 hb222 hR2 hRe
+                      exact ⟨s', run_fuel (run_chain hpre e1) e2.halted 239 (by decide), e2, e3, e4, e5⟩
                     | false =>
                       cases hb224 : (!t223.c) with
                       | true =>
-                        have c5 := cmp_eq ht208 hb209 hb210
-                        have c4 := cmp_eq ht211 hb212 hb213
-                        have c3 := cmp_eq ht214 hb215 hb216
-                        have c2 := cmp_eq ht217 hb218 hb219
-                        have c1 := cmp_eq ht220 hb221 hb222
-                        have c0 := cmp_lo ht223 hb224
-                        have hlt : val (2 ^ 64) [t184.val.toNat, t189.val.toNat, t194.val.toNat, t199.val.toNat, t204.val.toNat, t207.val.toNat] < val (2 ^ 64) [p0.toNat, p1.toNat, p2.toNat, p3.toNat, p4.toNat, p5.toNat] := by
-                          simp only [val_cons, val_nil]
-                          clear * - c5 c4 c3 c2 c1 c0 ir0 ip0 ir1 ip1 ir2 ip2 ir3 ip3 ir4 ip4 ir5 ip5
-                          omega
-                        have hres := X86.mont_result hR2 hRe (Or.inl ⟨rfl, hlt⟩)
-                        have hq := mont_tail_lo0 s pr pt pp inv hr ht hp hstk hrs hts hps (t73 := t73) (t106 := t106) (t139 := t139) (t172 := t172) (t175 := t175) (t184 := t184) (t189 := t189) (t194 := t194) (t198 := t198) (t199 := t199) (t204 := t204) (t205 := t205) (t207 := t207) (t223 := t223) (p0 := p0) (p1 := p1) (p2 := p2) (p3 := p3) (p4 := p4) (p5 := p5) (l176 := l176) (l200 := l200) ht208 ht211 ht214 ht217 ht220 ht223 hb209 hb210 hb212 hb213 hb215 hb216 hb218 hb219 hb221 hb222 hb224
-                        refine ⟨_, run_fuel (run_chain hpre hq) rfl 239 (by omega), ⟨rfl, rfl, rfl, rfl, rfl, rfl, rfl, rfl, rfl, rfl, rfl, rfl, rfl, rfl, rfl⟩, ?_, ?_, ?_⟩
-                        · simp only; a64_mem; exact hres.1
-                        · simp only; a64_mem; exact hres.2
-                        · intro k hk1 hk2
-                          simp (disch := (clear * - hk1 hk2 room4; omega)) only [setMem_ne]
+                        obtain ⟨s', e1, e2, e3, e4, e5⟩ := mont_end_lo0 s pr pt pp inv hr ht hp hstk hrs hts hps (t73 := t73) (t106 := t106) (t139 := t139) (t172 := t172) (t175 := t175) (t184 := t184) (t189 := t189) (t194 := t194) (t198 := t198) (t199 := t199) (t204 := t204) (t205 := t205) (t207 := t207) (t223 := t223) (p0 := p0) (p1 := p1) (p2 := p2) (p3 := p3) (p4 := p4) (p5 := p5) (l176 := l176) (l200 := l200) ht208 ht211 ht214 ht217 ht220 ht223 hb209 hb210 hb212 hb213 hb215 hb216 hb218 hb219 hb221 hb222 hb224 hR2 hRe
+                        exact ⟨s', run_fuel (run_chain hpre e1) e2.halted 239 (by decide), e2, e3, e4, e5⟩
                       | false =>
-                        have c5 := cmp_eq ht208 hb209 hb210
-                        have c4 := cmp_eq ht211 hb212 hb213
-                        have c3 := cmp_eq ht214 hb215 hb216
-                        have c2 := cmp_eq ht217 hb218 hb219
-                        have c1 := cmp_eq ht220 hb221 hb222
-                        have c0 := cmp_hs ht223 hb224
-                        have hle : val (2 ^ 64) [p0.toNat, p1.toNat, p2.toNat, p3.toNat, p4.toNat, p5.toNat] ≤ val (2 ^ 64) [t184.val.toNat, t189.val.toNat, t194.val.toNat, t199.val.toNat, t204.val.toNat, t207.val.toNat] := by
-                          simp only [val_cons, val_nil]
-                          clear * - c5 c4 c3 c2 c1 c0 ir0 ip0 ir1 ip1 ir2 ip2 ir3 ip3 ir4 ip4 ir5 ip5
-                          omega
-                        have hs := sub6_val ht223 ht226 ht227 ht228 ht229 ht230
-                        simp only [Bool.not_true, Bool.toNat_false, Nat.add_zero] at hs
-                        have hres := X86.mont_result hR2 hRe (Or.inr (sub_no_borrow hs hle (X86.val6_lt t223.val t226.val t227.val t228.val t229.val t230.val)))
-                        have hq := mont_tail_hs0 s pr pt pp inv hr ht hp hstk hrs hts hps (t73 := t73) (t106 := t106) (t139 := t139) (t172 := t172) (t175 := t175) (t184 := t184) (t189 := t189) (t194 := t194) (t198 := t198) (t199 := t199) (t204 := t204) (t205 := t205) (t207 := t207) (t223 := t223) (t226 := t226) (t227 := t227) (t228 := t228) (t229 := t229) (t230 := t230) (p0 := p0) (p1 := p1) (p2 := p2) (p3 := p3) (p4 := p4) (p5 := p5) (l176 := l176) (l200 := l200) ht208 ht211 ht214 ht217 ht220 ht223 ht226 ht227 ht228 ht229 ht230 hb209 hb210 hb212 hb213 hb215 hb216 hb218 hb219 hb221 hb222 hb224
-                        refine ⟨_, run_fuel (run_chain hpre hq) rfl 239 (by omega), ⟨rfl, rfl, rfl, rfl, rfl, rfl, rfl, rfl, rfl, rfl, rfl, rfl, rfl, rfl, rfl⟩, ?_, ?_, ?_⟩
-                        · simp only; a64_mem; exact hres.1
-                        · simp only; a64_mem; exact hres.2
-                        · intro k hk1 hk2
-                          simp (disch := (clear * - hk1 hk2 room4; omega)) only [setMem_ne]
+                        obtain ⟨s', e1, e2, e3, e4, e5⟩ := mont_end_hs0 s pr pt pp inv hr ht hp hstk hrs hts hps (t73 := t73) (t106 := t106) (t139 := t139) (t172 := t172) (t175 := t175) (t184 := t184) (t189 := t189) (t194 := t194) (t198 := t198) (t199 := t199) (t204 := t204) (t205 := t205) (t207 := t207) (t223 := t223) (t226e := t226e) (t227e := t227e) (t228e := t228e) (t229e := t229e) (t230e := t230e) (p0 := p0) (p1 := p1) (p2 := p2) (p3 := p3) (p4 := p4) (p5 := p5) (l176 := l176) (l200 := l200) ht208 ht211 ht214 ht217 ht220 ht223 ht226e ht227e ht228e ht229e ht230e hb209 hb210 hb212 hb213 hb215 hb216 hb218 hb219 hb221 hb222 hb224 hR2 hRe
+                        exact ⟨s', run_fuel (run_chain hpre e1) e2.halted 239 (by decide), e2, e3, e4, e5⟩
 
 end Jedi.A64
